@@ -1,7 +1,7 @@
 #!/usr/bin/env python3
 """rs2lean.py — translate the pure sizing / hash / constant core of abyssiniandb to Lean 4.
 
-usage: rs2lean.py <repo> <outdir>      (writes <outdir>/Consts.lean, Funcs.lean, FileOps.lean, Engine.lean)
+usage: rs2lean.py <repo> <outdir>      (writes <outdir>/Consts.lean, Funcs.lean, FileOps.lean, Engine.lean, FlushOps.lean)
 
 The translator accepts a small, fixed Rust subset (see DESIGN.md §3.2) and FAILS LOUDLY
 (exit 2, message with file and construct) on anything else.  Integers become `Nat`;
@@ -44,8 +44,18 @@ Fourth batch: the engine (dbxxx.rs `FileDbXxxInner<KT>` -> Engine.lean, monad `A
 `{ let mut locked = self.0.borrow_mut(); locked.g(args) }`), `HtxFile`, `locked_key`; `Option`, `if let Some(p) = o`,
 `.map(Some)`, the `match` on `cmp_u8` (context parameter `cmp`), `loop { … return … }` with an inner `while`,
 piece structs as locals; `self.dirty = true` and `_cold()` dropped; the hash is a parameter.
+Fifth batch: the iterator state machine (dbxxx.rs `DbXxxIterMut::{new, next_piece_offset}`, `Iterator::next`: the
+`&mut self` struct is threaded through as an explicit state tuple, parameter and part of the value; the `RefCell::borrow…`
+plumbing is pinned by shape and dropped, `io_plumbing`; `.unwrap()` of a `Result` in a function that returns none is the
+failure of the monad; struct literal `Self { … }`); the statistics of `CheckFileDbMap` (mod.rs `touch_size` /
+`touch_length` -> pure functions of Funcs.lean over `binarySearchByKey` / `listInsertAt` / `listSetSnd`, `translate_touch`;
+the trait object `dyn PieceA<T>` -> the structure `PieceA` and its two values; piece.rs `PieceOffsetIter`; `for` loops over
+`0..n`, a constant array, the piece walk: `EmitIO.for_`); flush / sync and the dirty flag (dbxxx.rs `flush`, `sync_all`,
+`sync_data` -> FlushOps.lean in the monad `Abyss.FlushM` over abstract per-file actions, `emit_flushops`; `dirty: true` in
+the constructor and the position of `self.dirty = true;` in `put_kt` / `del_kt` pinned).
 When the translation fails, Funcs.lean (and FileOps.lean, Engine.lean; FileOps.lean and Engine.lean when the I/O
-stage failed, Engine.lean alone when only the engine stage failed) is replaced by a file that does not build.
+stage failed, Engine.lean alone when only the engine stage failed; every time FlushOps.lean, which alone is replaced when
+only the flush stage failed) is replaced by a file that does not build.
 Python 3 standard library only.
 """
 import re
@@ -576,6 +586,20 @@ class P:
             path = self.path()
             if self.at("("):
                 return ("call", path, self.args())
+            if path == ["Self"] and self.at("{") and self.keep_try and not no_struct:
+                # imperative I/O subset: the struct literal `Self { a, b: e, }` (no `..base`)
+                self.next()
+                flds = []
+                while not self.at("}"):
+                    if self.at(".."):
+                        fail(self.where + ": `..base` in a struct literal is outside the supported subset")
+                    fk, fname = self.next()
+                    if fk != "id":
+                        fail("%s: unsupported field in a struct literal at %r" % (self.where, fname))
+                    flds.append([fname, self.expr() if self.eat(":") else ("path", [fname])])    # a list: not an AST node
+                    self.eat(",")
+                self.expect("}")
+                return ("structlit", "Self", flds)
             return ("path", path)
         fail("%s: unsupported expression at %r (…%s)" % (self.where, v,
              " ".join(x[1] for x in self.t[max(0, self.i - 6):self.i + 4])))
@@ -1464,6 +1488,79 @@ def translate_fn(repo, feats, relpath, rust_name, lean_name, params, subst, cons
     return partial, term, em.notes
 
 
+def translate_touch(repo, feats, header, rust, param, ptype):
+    """src/filedb/mod.rs `RecordSizeStats::touch_size` / `LengthStats::touch_length`: `&mut self` is a tuple struct
+    around a `Vec<(x, u64)>`; the vector `self.0` is the parameter and the value `vec` of a pure function.  Exactly
+        match self.0.binary_search_by_key(&<param>, |&(a, _b)| a) { Ok(i) => { S… } Err(j) => { S… } }
+    with statements  `self.0[i].1 = e;` / `self.0[i].1 += e;`  (`i` the `Ok` binder: in range),
+    `self.0.insert(j, (e1, e2));`  (`j` the `Err` binder: `≤ len`);  e: literals, the parameter, `+`, `*`.
+    -> (Lean parameter name, term)"""
+    rel = "src/filedb/mod.rs"
+    where = "%s::<%s>::%s" % (rel, header, rust)
+    cands = io_find_methods(repo, feats, rel, header).get(rust, [])
+    if len(cands) != 1:
+        fail("%s: %d definitions with a true `#[cfg]` (exactly one expected)" % (where, len(cands)))
+    toks = cands[0][0]
+    ib = [v for _k, v in toks].index("{")
+    want = [v for _k, v in tokenize("fn %s(&mut self, %s: %s)" % (rust, param, ptype))]
+    if [v for _k, v in toks[:ib]] != want:
+        fail("%s: signature is `%s`, the translation is configured for `%s`" % (where, " ".join(v for _k, v in toks[:ib]), " ".join(want)))
+    pp = P(toks[ib:], feats, where)
+    pp.keep_try = True
+    body = pp.block()
+    if pp.i != len(toks) - ib or pp.dropped or pp.kept:
+        fail("%s: tokens after the body / `#[cfg]` statements" % where)
+    m = body[2] if not body[1] else (body[1][0][1] if (len(body[1]) == 1 and body[1][0][0] == "expr" and body[2] is None) else None)
+    vec = ("field", ("path", ["self"]), "0")
+    if not (m is not None and m[0] == "match" and m[1][0] == "mcall" and m[1][1] == vec and m[1][2] == "binary_search_by_key"
+            and len(m[1][3]) == 2 and m[1][3][0] == ("path", [param]) and m[1][3][1][0] == "closure"
+            and len(m[1][3][1][1]) == 1 and m[1][3][1][1][0][0] == "ptuple" and len(m[1][3][1][1][0][1]) == 2
+            and m[1][3][1][1][0][1][0][0] == "pvar" and m[1][3][1][1][0][1][1][0] == "pvar"
+            and m[1][3][1][2] == ("path", [m[1][3][1][1][0][1][0][1]])
+            and m[1][3][1][1][0][1][0][1] != m[1][3][1][1][0][1][1][1]):
+        fail("%s: the body is not `match self.0.binary_search_by_key(&%s, |&(a, _b)| a) { … }`" % (where, param))
+    arms = dict((tuple(a[0]), a) for a in m[2])
+    if sorted(arms) != [("Err",), ("Ok",)] or len(m[2]) != 2:
+        fail("%s: the arms of the `match` are not exactly `Ok(i)` and `Err(j)`" % where)
+    lp = lean_ident(param)
+
+    def ex(e, binder):
+        if e[0] == "num":
+            return str(e[1])
+        if e == ("path", [param]):
+            return lp
+        if e == ("path", [binder]):
+            return lean_ident(binder)
+        if e[0] == "bin" and e[1] in ("+", "*"):
+            return "(%s %s %s)" % (ex(e[2], binder), e[1], ex(e[3], binder))
+        fail("%s: expression outside the subset of the `touch` functions (literals, `%s`, the index, `+`, `*`)" % (where, param))
+
+    out = ["match binarySearchByKey vec %s with" % lp]
+    for tag, ctor in (("Ok", ".ok"), ("Err", ".error")):
+        _path, binder, blk = arms[(tag,)]
+        if binder in (None, "()", param, "vec") or blk[0] != "block" or blk[2] is not None:
+            fail("%s: the `%s` arm is not `%s(i) => { statements }`" % (where, tag, tag))
+        b = lean_ident(binder)
+        out.append("  | %s %s =>" % (ctor, b))
+        for st in blk[1]:
+            if (st[0] == "assign" and st[1] in ("=", "+=") and st[2] == ("field", ("index", vec, ("path", [binder])), "1")
+                    and tag == "Ok"):
+                # `self.0[i].1 = e;` / `self.0[i].1 += e;` with the index the binary search found (`i < len`)
+                v = ex(st[3], binder)
+                if st[1] == "+=":
+                    v = "(listGetSnd vec %s + %s)" % (b, v)
+                out.append("    let vec := listSetSnd vec %s %s" % (b, v))
+            elif (st[0] == "expr" and st[1][0] == "mcall" and st[1][1] == vec and st[1][2] == "insert" and len(st[1][3]) == 2
+                  and st[1][3][0] == ("path", [binder]) and st[1][3][1][0] == "tuple" and len(st[1][3][1][1]) == 2 and tag == "Err"):
+                # `self.0.insert(j, (e1, e2));` at the place the binary search names (`j ≤ len`)
+                out.append("    let vec := listInsertAt vec %s (%s, %s)" % (b, ex(st[1][3][1][1][0], binder), ex(st[1][3][1][1][1], binder)))
+            else:
+                fail("%s: statement outside the subset of the `touch` functions in the `%s` arm (`self.0[i].1 = e;`, "
+                     "`self.0[i].1 += e;` in `Ok(i)`; `self.0.insert(j, (e1, e2));` in `Err(j)`)" % (where, tag))
+        out.append("    vec")
+    return lp, "\n".join(out)
+
+
 def const_value(repo, feats, relpath, name, consts_env):
     where = "%s::%s" % (relpath, name)
     src = strip_comments(open(os.path.join(repo, relpath)).read())
@@ -1566,8 +1663,17 @@ IO_SIG_TYPES = {"PieceOffset<T>": "Offset", "Offset<T>": "Offset", "PieceSize<T>
                 # byte sequences; a key `KT: DbMapKeyType` is its bytes (`as_bytes` / `from_bytes` / `clone` erased)
                 "Vec<u8>": "bytes", "&[u8]": "bytes", "rabuf::MaybeSlice": "bytes", "KT": "bytes", "&KT": "bytes",
                 "&mutVarFile": "vfile",
+                "PieceOffset<Key>": "Offset", "PieceOffset<Value>": "Offset", "PieceSize<Key>": "Size", "PieceSize<Value>": "Size",
+                "Rc<RefCell<FileDbXxxInner<KT>>>": "dbmap", "Box<dynPieceA<T>>": "piecea",
+                "RecordSizeStats<Key>": "sizestats", "RecordSizeStats<Value>": "sizestats",
+                "LengthStats<Key>": "lenstats", "LengthStats<Value>": "lenstats",
+                "Vec<(u32,u64)>": "pairs", "CountOfPerSize": "pairs",
                 "ValuePiece": ("struct", "ValuePiece"), "KeyPiece<KT>": ("struct", "KeyPiece")}
-IO_RESERVED = ("c", "fuel", "loopFuel", "loopRes", "loopRet", "tryVal")
+IO_RESERVED = ("c", "fuel", "loopFuel", "loopRes", "loopRet", "tryVal", "loopRest", "loopItem", "loopIter", "st", "fileA")
+# methods that change their receiver, a local vector: `v.m(..);` is an assignment to `v`
+IO_MUT_METHODS = ("push", "touch_size", "touch_length")
+# the trait objects of the two record files (FileOps.lean), by the file of the engine
+IO_PIECEA_INST = {"key": ("keyPieceA", "liftKey"), "val": ("valPieceA", "liftVal")}
 IO_RESERVED_ENGINE = ("kc", "vc", "bucketsSize", "cmp")
 # context parameters of a translated function (in this order, before its own parameters):
 # the piece manager of the file (`c`; of the key / value file in the engine: `kc`, `vc`), the field
@@ -1578,6 +1684,23 @@ CTX_TYPES = {"c": "FileCfg", "kc": "FileCfg", "vc": "FileCfg", "bucketsSize": "N
 # constants of a file that the translated functions of that file may use: Rust name -> name in Consts.lean
 IO_CONSTS = {IO_HTX: {"HTX_HEADER_SZ": "htxHeaderSz", "HTX_HT_SIZE_OFFSET": "htxHtSizeOffset",
                       "HTX_ITEM_COUNT_OFFSET": "htxItemCountOffset"}}
+IO_CONSTS[IO_KEY] = {"DAT_HEADER_SZ": "keyHeaderSz", "REC_SIZE_ARY": ("keySizeAry", "intlist")}
+IO_CONSTS[IO_VAL] = {"DAT_HEADER_SZ": "valHeaderSz", "REC_SIZE_ARY": ("valSizeAry", "intlist")}
+
+
+def io_const_name(x):
+    return x if isinstance(x, str) else x[0]
+
+
+def io_const_cls(x):
+    return "int" if isinstance(x, str) else x[1]
+
+
+# the statistics vectors of src/filedb/mod.rs (tuple structs around a sorted `Vec<(x, u64)>`, pinned in io_pin_stats):
+# struct -> (class, its `touch` method, class of the argument, the translation of the method in Funcs.lean)
+IO_MOD_RS = "src/filedb/mod.rs"
+IO_STATS = {"RecordSizeStats": ("sizestats", "touch_size", "Size", "touchSize"),
+            "LengthStats": ("lenstats", "touch_length", "Length", "touchLength")}
 # methods that are the identity on a byte sequence / key
 IO_BYTES_IDENTITY = ("as_bytes", "clone", "to_vec", "into_vec")
 
@@ -1621,6 +1744,45 @@ IO_STRUCTS = {
                                         ("tuple", ["int", "int", "Length"]), ["u32", "u32", None])},
     },
 }
+# owners whose methods hold the file open through `let mut <name> = self.0.borrow_mut();` (pinned, dropped):
+# `<name>.0` is the VarFile
+IO_LOCKS = {"KeyFilePieceA": "file", "ValueFilePieceA": "file", "KeyFile": "locked", "ValueFile": "locked"}
+
+# the iterator structs (`state`): the `&mut self` of a method is threaded through the Lean function as the explicit
+# tuple `st` of the data fields `fields` (parameter and second component of the result); `handles`: the fields that
+# are not data (the map behind the iterator: the implicit `DbSt`; the trait object of the file: a `PieceA` parameter);
+# `lean`: Lean names of the data fields inside the function
+IO_STRUCTS.update({
+    "DbXxxIterMut": {
+        "file": IO_DBX, "impl": "impl<KT: DbMapKeyType> DbXxxIterMut<KT>", "state": True, "lead": "pub struct DbXxxIterMut",
+        "decl": "#[derive(Debug)] pub struct DbXxxIterMut<KT: DbMapKeyType> { db_map: Rc<RefCell<FileDbXxxInner<KT>>>, "
+                "remaining_item_count: u64, buckets_size: u64, buckets_idx: u64, key_offset: KeyPieceOffset, }",
+        "fields": [("remaining_item_count", "int"), ("buckets_size", "int"), ("buckets_idx", "int"), ("key_offset", "Offset")],
+        "widths": {"remaining_item_count": "u64", "buckets_size": "u64", "buckets_idx": "u64"},
+        "handles": {"db_map": "dbmap"},
+        "lean": {"remaining_item_count": "selfRemainingItemCount", "buckets_size": "selfBucketsSize",
+                 "buckets_idx": "selfBucketsIdx", "key_offset": "selfKeyOffset"},
+        "ctors": {}, "pure": {},
+    },
+    "PieceOffsetIter": {
+        "file": IO_PI, "impl": "impl<T: PartialEq + Copy + PartialOrd> PieceOffsetIter<T>", "state": True,
+        "lead": "pub(crate) struct PieceOffsetIter",
+        "decl": "#[derive(Debug)] pub(crate) struct PieceOffsetIter<T> { file_a: Box<dyn PieceA<T>>, "
+                "piece_offset_start: PieceOffset<T>, piece_offset_end: PieceOffset<T>, piece_offset: PieceOffset<T>, }",
+        "fields": [("piece_offset_start", "Offset"), ("piece_offset_end", "Offset"), ("piece_offset", "Offset")],
+        "widths": {},
+        "handles": {"file_a": "piecea"},
+        "lean": {"piece_offset_start": "selfPieceOffsetStart", "piece_offset_end": "selfPieceOffsetEnd",
+                 "piece_offset": "selfPieceOffset"},
+        "ctors": {}, "pure": {},
+    },
+})
+# Lean parameter of a handle field / handle parameter (none for the map: it is the state of `DbM`)
+IO_HANDLE_LEAN = {"piecea": ("fileA", "PieceA")}
+# the trait `PieceA<T>` (piece.rs; pinned in io_pin_piecea): method -> (classes of the arguments, class of the value, Lean field)
+IO_PIECEA = {"piece_offset_start": ([], "Offset", "pieceOffsetStart"), "piece_offset_end": ([], "Offset", "pieceOffsetEnd"),
+             "piece_size": (["Offset"], "Size", "pieceSize")}
+
 # owners of translated methods: name -> (`impl` header, text that denotes the VarFile inside, pinned definition)
 IO_OWNERS = {
     "VarFile": ("impl VarFile", "self", None),
@@ -1634,6 +1796,14 @@ IO_OWNERS = {
     "VarFileKeyCache": ("impl<KT: DbMapKeyType> VarFileKeyCache<KT>", "self.0",
                         (IO_KEY, r"pub\s+struct\s+VarFileKeyCache<KT:\s*DbMapKeyType>\s*\(\s*pub\s+VarFile\s*,"
                                  r"\s*PhantomData<KT>\s*\)\s*;")),
+    # the trait `PieceA` of the two record files (the handles `KeyFile<KT>` / `ValueFile`, see IO_LOCKS)
+    "KeyFilePieceA": ("impl<KT: DbMapKeyType> PieceA<Key> for KeyFile<KT>", "file.0", None),
+    "ValueFilePieceA": ("impl PieceA<Value> for ValueFile", "file.0", None),
+    # methods of the handles that are not plain wrappers (`count_of_free_…_piece`)
+    "KeyFile": ("impl<KT: DbMapKeyType> KeyFile<KT>", "locked.0", None),
+    "ValueFile": ("impl ValueFile", "locked.0", None),
+    # the walk over all pieces of a record file (piece.rs)
+    "PieceOffsetIter": ("impl<T: PartialEq + Copy + PartialOrd> PieceOffsetIter<T>", None, None),
 }
 
 
@@ -1652,6 +1822,12 @@ def io_lean_ty(t):
     if t == "bool":
         return "Bool"
     if t == "bytes":
+        return "List Nat"
+    if t == "piecea":
+        return "PieceA"
+    if t in ("pairs", "sizestats", "lenstats"):
+        return "List (Nat × Nat)"
+    if t == "intlist":
         return "List Nat"
     if isinstance(t, tuple) and t[0] == "tuple":
         return " × ".join(io_lean_ty(x) if not isinstance(x, tuple) else "(" + io_lean_ty(x) + ")" for x in t[1])
@@ -1784,7 +1960,15 @@ def io_assigned(stmts, where):
                     out.append(v)
                 ex(st[3], decl)
             elif k == "expr":
+                e_ = st[1]
+                if e_[0] == "mcall" and e_[2] in IO_MUT_METHODS and e_[1][0] == "path" and len(e_[1][1]) == 1:
+                    v = e_[1][1][0]                      # `v.push(..);` / `v.touch_size(..);` changes `v`
+                    if v not in decl and v not in out:
+                        out.append(v)
                 ex(st[1], decl)
+            elif k == "for":
+                ex(st[2], decl)
+                blk(st[3][1], st[3][2], set(decl) | set(pat_vars(st[1])))
             elif k == "while":
                 ex(st[1], decl)
                 blk(st[2][1], st[2][2], decl)
@@ -1916,7 +2100,7 @@ def io_find_item_tokens(repo, relpath, lead):
     return hits[0]
 
 
-def io_parse_sig(toks, where):
+def io_parse_sig(toks, where, assoc=False):
     """tokens `fn name <generics>? ( &mut self , a : T , … ) -> R {`: (receiver `&mut self` / `&self`,
     params [(name, type text)], return type text, index of the body `{`).  The generic parameter
     list (trait bounds on the phantom type parameter) is skipped; `mut` of a by-value parameter
@@ -1939,6 +2123,8 @@ def io_parse_sig(toks, where):
     elif [t[1] for t in toks[i:i + 2]] == ["&", "self"]:
         recv = "&self"
         i += 2
+    elif assoc:
+        recv = None                    # an associated function (`new`)
     else:
         fail("%s: the receiver is not `&mut self` / `&self`" % where)
     params = []
@@ -1983,9 +2169,14 @@ class IoParam:
     def __init__(self, rust, cls, lean=None, fields=None, width=None):
         self.rust, self.cls, self.lean, self.fields, self.width = rust, cls, lean, fields, width
 
+    state = False                     # the `&mut self` of an iterator struct: the Lean parameter `st` (a tuple)
+    handles = ()                      # … and the Lean parameters of its handle fields
+
     def lean_params(self):
-        if self.cls == "vfile":
+        if self.cls in ("vfile", "dbmap"):
             return []
+        if self.state:
+            return list(self.handles) + [("st", io_lean_ty(("tuple", [fc for _f, fc, _ln, _inp in self.fields])))]
         if self.fields is not None:
             return [(ln, io_lean_ty(fc)) for _f, fc, ln, inp in self.fields if inp]
         return [(self.lean, io_lean_ty(self.cls))]
@@ -2020,6 +2211,8 @@ class CtxFn:
         return self.em.mtail(e, self)
 
     def ret_pure(self, txt):
+        if self.em.f.state:
+            fail(self.em.where + ": `return` inside a loop of a method of an iterator struct")
         return ["pure " + txt]
 
 
@@ -2169,7 +2362,10 @@ class EmitIO:
         self.guards = None            # list that collects the underflow guards of `a - b`, where the statement can emit them
         self.vf_texts = set(f.vf_texts)
         self.handles = {}             # engine: `locked_key` (of `let mut locked_key = self.key_file.0.borrow_mut();`) -> "key"
-        self.reserved = IO_RESERVED + (IO_RESERVED_ENGINE if f.engine else ()) + tuple(f.consts.values())
+        # the names of the context parameters are reserved where the function has that parameter (of the iterator
+        # functions none has one: `let buckets_size = self.buckets_size;` is an ordinary local there)
+        self.reserved = IO_RESERVED + (tuple(x for x in IO_RESERVED_ENGINE if x in f.needs or f.eng_self) if f.engine else ()) \
+            + tuple(io_const_name(x) for x in f.consts.values())
         for txt, (ln, cls, wd) in f.field_params.items():
             # `locked.buckets_size`: a field of the cache struct that is a context parameter
             self.vt[txt], self.names[txt] = cls, ln
@@ -2177,7 +2373,7 @@ class EmitIO:
             self.pristine.add(txt)
             self.width[txt] = wd
         for p in f.params:
-            if p.cls == "vfile":
+            if p.cls in ("vfile", "dbmap", "piecea"):
                 continue
             if p.fields is not None:
                 self.vt[p.rust] = p.cls
@@ -2280,6 +2476,49 @@ class EmitIO:
     def text(self, e):
         return io_text(e)
 
+    def as_try(self, e):
+        """`call?` -> call; in a function that does not return a `Result` also `call.unwrap()` of a `Result`:
+        the panic on `Err` is the failure of the monad"""
+        if e[0] == "try":
+            return e[1]
+        if e[0] == "mcall" and e[2] == "unwrap" and not e[3] and self.f.unwrap_fails and self.is_monadic(e[1]):
+            self.notes_unwrap = True
+            return e[1]
+        return None
+
+    # ---- the `&mut self` of an iterator struct, threaded through as a tuple
+    def state_tuple(self):
+        st = IO_STRUCTS[self.f.state]
+        return "(" + ", ".join(self.names["self." + fld] for fld, _fc in st["fields"]) + ")"
+
+    def with_state(self, lines):
+        """the value of the function: `pure v` -> `pure (v, state)`; a call in tail position is bound first"""
+        if not self.f.state:
+            return lines
+        if len(lines) == 1 and lines[0].startswith("pure "):
+            return ["pure (%s, %s)" % (lines[0][len("pure "):], self.state_tuple())]
+        return io_attach("let tryVal ← ", lines) + ["pure (tryVal, %s)" % self.state_tuple()]
+
+    def state_call(self, e):
+        """`self.m(..)` where `self` is the iterator struct and `m` a translated method of it:
+        (do-items that run it and re-bind the state fields, Lean text of its value, class) or None"""
+        if not (self.f.state and e[0] == "mcall" and e[1] == ("path", ["self"])):
+            return None
+        g = self.table.get((self.f.state, e[2]))
+        if g is None or not g.state:
+            return None
+        if e[3] or g.needs or [p_ for p_ in g.params if not getattr(p_, "state", False)]:
+            fail("%s: call of `self.%s(..)` with arguments / context parameters" % (self.where, e[2]))
+        if g.monad != self.f.monad:
+            fail("%s: call of `self.%s(..)` of another monad" % (self.where, e[2]))
+        tup = self.state_tuple()
+        hp = "".join(" " + hl for hl, _ht in g.params[0].handles)
+        for fld, _fc in IO_STRUCTS[self.f.state]["fields"]:
+            k = "self." + fld
+            self.forget(k)
+            self.pristine.discard(k)
+        return ["let (tryVal, %s) ← %s%s %s" % (tup, g.lean, hp, tup)], "tryVal", g.ret
+
     # ---- flattened structs
     def field_key(self, e):
         """`v.f` where `v` is a flattened struct variable -> the key `v.f`"""
@@ -2336,18 +2575,52 @@ class EmitIO:
                 else:
                     out[fld] = ("0" if fc in NUMERIC else "[]", fc, None)     # `..Default::default()` (pinned)
             return name, out
+        if e[0] == "structlit" and e[1] == "Self" and self.f.owner in IO_STRUCTS and IO_STRUCTS[self.f.owner].get("state"):
+            # `Self { h, a, b: e }` of an iterator struct: every field once; a handle field is the handle parameter
+            name = self.f.owner
+            st = IO_STRUCTS[name]
+            given = [x[0] for x in e[2]]
+            if sorted(given) != sorted(list(st["handles"]) + [fld for fld, _fc in st["fields"]]):
+                fail("%s: the struct literal does not give every field of `%s` exactly once" % (w, name))
+            vals = dict((x[0], x[1]) for x in e[2])
+            for h, kind in st["handles"].items():
+                a = vals[h]
+                if not (a[0] == "path" and len(a[1]) == 1 and self.f.handle_params.get(a[1][0]) == kind):
+                    fail("%s: the field `%s` of the `%s` is not the parameter of the function" % (w, h, name))
+            out = {}
+            for fld, fc in st["fields"]:
+                t, ty = self.px(vals[fld])
+                if ty != fc:
+                    fail("%s: field `%s` of class %r gets a value of class %r" % (w, fld, fc, ty))
+                out[fld] = (t, fc, self.root_of(self.var_of(vals[fld])))
+            return name, out
         fail("%s: a piece struct is expected here (a struct variable or one of the pinned constructors)" % w)
 
     def is_struct_expr(self, e):
         if e[0] == "path" and len(e[1]) == 1:
             t = self.vt.get(e[1][0])
             return isinstance(t, tuple) and t[0] == "struct"
+        if e[0] == "structlit":
+            return True
         return e[0] == "call" and len(e[1]) == 2 and e[1][0] in IO_STRUCTS and e[1][1] in IO_STRUCTS[e[1][0]]["ctors"]
+
+    def trait_handle(self, recv):
+        """`file_a` (parameter) / `self.file_a` (field of the iterator struct) of type `Box<dyn PieceA<T>>`: its Lean name"""
+        if recv[0] == "path" and len(recv[1]) == 1 and self.f.handle_params.get(recv[1][0]) == "piecea":
+            return IO_HANDLE_LEAN["piecea"][0]
+        if (self.f.state and recv[0] == "field" and recv[1] == ("path", ["self"])
+                and IO_STRUCTS[self.f.state]["handles"].get(recv[2]) == "piecea"):
+            return IO_HANDLE_LEAN["piecea"][0]
+        return None
 
     # ---- who is called
     def resolve(self, recv, name):
         """(`prim`, entry) | (`fn`, IoFn) | (`dropped`, note) | (`pure`, struct name) | None"""
         rt = self.text(recv)
+        th = self.trait_handle(recv)
+        if th is not None:
+            # a method of the trait object `dyn PieceA<T>`: a field of the Lean structure `PieceA`
+            return ("trait", IO_PIECEA[name], th) if name in IO_PIECEA else ("unknown-self", None)
         if rt in self.vf_texts:
             if name in IO_DROPPED_CALLS:
                 return ("dropped", IO_DROPPED_CALLS[name])
@@ -2406,7 +2679,8 @@ class EmitIO:
                     fail("%s: the piece struct `%s` is used where a plain value is expected" % (w, e[1][0]))
                 return self.names[e[1][0]], self.vt[e[1][0]]
             if len(e[1]) == 1 and e[1][0] in self.f.consts:
-                return self.f.consts[e[1][0]], "int"    # a constant of Consts.lean (checked to be this one; the name is reserved)
+                # a constant of Consts.lean (checked to be this one; the name is reserved)
+                return io_const_name(self.f.consts[e[1][0]]), io_const_cls(self.f.consts[e[1][0]])
             if e[1] == ["None"]:
                 return "none", ("option", None)
             fail("%s: `%s` is not a local variable or parameter" % (w, "::".join(e[1])))
@@ -2451,6 +2725,11 @@ class EmitIO:
                 if not (a[0] == "path" and len(a[1]) == 1 and self.vt.get(a[1][0]) == "int"):
                     fail("%s: std::mem::size_of_val(..) of something that is not a plain integer variable" % w)
                 return str(WIDTH[self.decl_width(a[1][0])] // 8), "int"
+            if len(p) == 2 and p[1] == "default" and p[0] in IO_STATS and not e[2]:
+                return "[]", IO_STATS[p[0]][0]                  # `#[derive(Default)]` of the tuple struct around a `Vec` (pinned)
+            if p == ["Vec", "new"] and not e[2]:
+                # the element type is that of the `push`es and of the `return` (each checked to be `(u32, u64)`)
+                return "[]", "pairs"
             if p == ["KT", "from_bytes"] and len(e[2]) == 1:
                 t, ty = self.px(e[2][0])
                 if ty != "bytes":
@@ -2569,6 +2848,11 @@ class EmitIO:
                         # semtype.rs `Sub<Offset<T>> for Offset<T>`: `(self.val - rhs.val) as u32` (pinned)
                         return "((%s - %s) %% 2^32)" % (a, b), "Size"
                     return "(%s - %s)" % (a, b), "int"
+            if op == "/" and (ta, tb) == ("int", "int") and not re.match(r"^[1-9]\d*$", b):
+                # division by something that is not a positive literal: Rust panics when it is 0 (`Nat` gives 0)
+                if self.guards is None:
+                    fail("%s: `%s / %s` where no guard against a zero divisor can be emitted" % (w, a, b))
+                self.guards.append("(if (%s == 0) then %s else pure ())" % (b, self.f.failtxt))
             if op in ("*", "/", "%") and (ta, tb) == ("int", "int"):
                 return "(%s %s %s)" % (a, op, b), "int"
             fail("%s: operator `%s` on values of classes %r and %r" % (w, op, ta, tb))
@@ -2672,6 +2956,8 @@ class EmitIO:
         def side(x):
             if x[0] == "path" and len(x[1]) == 1 and x[1][0] in self.vt and self.vt[x[1][0]] in NUMERIC:
                 return self.names[x[1][0]]
+            if x[0] == "field" and self.field_key(x) in self.vt and self.vt[self.field_key(x)] in NUMERIC:
+                return self.names[self.field_key(x)]         # `self.remaining_item_count > 0`
             if x[0] == "num":
                 return str(x[1])
             return None
@@ -2693,7 +2979,7 @@ class EmitIO:
             if e[2] == "map":
                 return self.is_monadic(e[1])
             r = self.resolve(e[1], e[2])
-            return r is not None and r[0] in ("prim", "fn", "dropped", "seek")
+            return r is not None and r[0] in ("prim", "fn", "dropped", "seek", "trait")
         if k == "block":
             return e[2] is not None and self.is_monadic(e[2])
         if k == "if":
@@ -2780,7 +3066,9 @@ class EmitIO:
                 omitted_txt = tuple((fld, sv[fld][0] if fld in sv else None)
                                     for fld, _fc in IO_STRUCTS[name]["fields"] if fld not in rf)
                 return ["pure " + io_atom(txt)], ("sres", name, tuple(rf), omitted, omitted_txt)
-            t, ty = self.px(e[2][0])
+            pre, t, ty = self.px_guarded(e[2][0])
+            if pre:
+                return ["do"] + ind(pre + ["pure " + io_atom(t)]), ty
             return ["pure " + io_atom(t)], ty
         if k == "mcall":
             recv, name, args = e[1], e[2], e[3]
@@ -2834,6 +3122,9 @@ class EmitIO:
             if r is not None and r[0] == "prim":
                 lean, classes, ty, _wd = r[1]
                 return [lean + self.args(args, classes, "%s.%s" % (rt, name))], ty
+            if r is not None and r[0] == "trait":
+                (classes, ty, lfield), hl = r[1], r[2]
+                return ["%s.%s%s" % (hl, lfield, self.args(args, classes, "%s.%s" % (rt, name)))], ty
             if r is not None and r[0] == "fn":
                 t, ty = self.call_fn(r[1], recv, args, "%s.%s" % (rt, name), *r[2:])
                 return [t], ty
@@ -2873,11 +3164,23 @@ class EmitIO:
             return self.scoped(e[1], e[2], ctx)
         if e[0] == "iflet":
             return self.iflet(e, [], None, ctx, False)
+        if self.f.plain:
+            # the function does not return a `Result`: a plain value
+            if any(n[0] == "try" for n in io_walk(e)):
+                fail(self.where + ": `?` in a function that does not return a `Result`")
+            t, ty = self.px(e)
+            self.check_ret(ty)
+            return self.with_state(["pure " + io_atom(t)])
         lines, ty = self.mex(e)
         self.check_ret(ty)
         if lines[0] == "do":
-            return [x[2:] for x in lines[1:]]      # `do` block as the last item of a do block: spliced
-        return lines
+            lines = [x[2:] for x in lines[1:]]      # `do` block as the last item of a do block: spliced
+            if self.f.state:
+                if not lines[-1].startswith("pure "):
+                    fail(self.where + ": a compound expression as the value of a method of an iterator struct")
+                return lines[:-1] + self.with_state(lines[-1:])
+            return lines
+        return self.with_state(lines)
 
     def value_if(self, e):
         """`if c { …; v } else { …; v' }` as a value: (lines of the monadic term, class, widths)"""
@@ -2951,7 +3254,12 @@ class EmitIO:
             fail("%s: `if let` with a pattern that is not `Some(p)`" % w)
         if els is None:
             fail("%s: `if let` without `else`" % w)
-        t, ty = self.px(scrut)
+        sc = self.state_call(scrut)
+        pre = []
+        if sc is not None:
+            pre, t, ty = sc                # `if let Some(p) = self.next_piece_offset()`: the call runs first
+        else:
+            t, ty = self.px(scrut)
         if not (isinstance(ty, tuple) and ty[0] == "option" and ty[1] is not None):
             fail("%s: `if let Some(..) = e` on a value of class %r" % (w, ty))
         if stmt:
@@ -2972,8 +3280,8 @@ class EmitIO:
         b = self.scoped(els[1], els[2], bctx)
         if stmt:
             lines = ["match %s with" % t, "| some %s => do" % pt] + ind(a) + ["| none => do"] + ind(b)
-            return io_attach("", lines) + self.seq(rest, tail, ctx)
-        return ["match %s with" % t, "| some %s =>" % pt] + ind(a) + ["| none =>"] + ind(b)
+            return pre + io_attach("", lines) + self.seq(rest, tail, ctx)
+        return pre + ["match %s with" % t, "| some %s =>" % pt] + ind(a) + ["| none =>"] + ind(b)
 
     def is_recovery_match(self, e):
         """exactly `match <call> { Ok(()) => (), Err(err) => { let _ = <vf>.set_file_length(x); return Err(err); } }`"""
@@ -3030,6 +3338,23 @@ class EmitIO:
                 self.notes.append("`let mut %s = self.key_file.0.borrow_mut();` (`%s.m(..)` is the function `m` of the key file)"
                                   % (pat[1], pat[1]))
                 return self.seq(rest, tail, ctx)
+            pl = io_plumbing(self.f, st, self.handles)
+            if pl is not None:
+                # the `RefCell` plumbing around the map / its files / the file of a handle: nothing to emit
+                h, kind, txt = pl
+                if h in self.vt or h in self.handles:
+                    fail("%s: `%s` is already a variable" % (w, h))
+                if kind != "lock":
+                    self.handles[h] = kind
+                self.notes.append("`%s` (%s)" % (txt, {
+                    "eng": "`%s` is the map: the three files of `DbM`" % h,
+                    "key": "`%s.m(..)` is the function `m` of the key file" % h,
+                    "htx": "`%s.file.m(..)` is the function `m` of the hash-table file" % h,
+                    "lock": "`%s.0` is the file" % h}[kind]))
+                return self.seq(rest, tail, ctx)
+            inner_try = self.as_try(e)
+            if inner_try is not None:
+                e = ("try", inner_try)
             if e[0] == "try":
                 lines, vty = self.mex(e[1])
                 check_ann(vty)
@@ -3113,8 +3438,9 @@ class EmitIO:
             for a, r in self.alias.items():
                 if r == v and a in self.vt:
                     fail("%s: `%s` is assigned while `%s` still stands for its old value" % (w, v, a))
-            if op == "=" and rhs[0] == "try":
+            if op == "=" and self.as_try(rhs) is not None:
                 # `v = call?;`
+                rhs = ("try", self.as_try(rhs))
                 lines, vty = self.mex(rhs[1])
                 if vty != self.vt[v]:
                     fail("%s: `%s` of class %r is assigned a value of class %r" % (w, v, self.vt[v], vty))
@@ -3147,6 +3473,34 @@ class EmitIO:
             return self.while_(st, rest, tail, ctx)
         if k == "loop":
             return self.loop_(st, rest, tail, ctx)
+        if k == "for":
+            return self.for_(st, rest, tail, ctx)
+        if k == "expr" and st[1][0] == "mcall" and st[1][2] in IO_MUT_METHODS and st[1][1][0] == "path" \
+                and len(st[1][1][1]) == 1 and st[1][1][1][0] in self.vt:
+            # `v.push((a, b));` / `v.touch_size(x);` / `v.touch_length(x);` on a local vector: `v` is re-bound
+            e = st[1]
+            v, m, args = e[1][1][0], e[2], e[3]
+            cls = self.vt[v]
+            if v in self.alias or any(r == v and a in self.vt for a, r in self.alias.items()):
+                fail("%s: `%s.%s(..)` on a variable that shares its value with another" % (w, v, m))
+            if m == "push":
+                if cls != "pairs" or len(args) != 1:
+                    fail("%s: `%s.push(..)` on a value of class %r (only on a `Vec` of pairs)" % (w, v, cls))
+                pre, t, ty = self.px_guarded(args[0])
+                if ty != ("tuple", ["int", "int"]):
+                    fail("%s: `%s.push(..)` of a value of class %r (a pair of plain integers expected)" % (w, v, ty))
+                new = "(%s ++ [%s])" % (self.names[v], t)
+            else:
+                sn = [x for x in IO_STATS if IO_STATS[x][1] == m and IO_STATS[x][0] == cls]
+                if len(sn) != 1 or len(args) != 1:
+                    fail("%s: `%s.%s(..)` on a value of class %r" % (w, v, m, cls))
+                pre, t, ty = self.px_guarded(args[0])
+                if ty != IO_STATS[sn[0]][2]:
+                    fail("%s: `%s.%s(..)` of a value of class %r (%r expected)" % (w, v, m, ty, IO_STATS[sn[0]][2]))
+                new = "(%s %s %s)" % (IO_STATS[sn[0]][3], self.names[v], io_atom(t))
+            self.forget(v)
+            self.pristine.discard(v)
+            return pre + ["let %s := %s" % (self.names[v], new)] + self.seq(rest, tail, ctx)
         if k == "expr":
             e = st[1]
             if self.f.engine and e == ("call", ["_cold"], []):
@@ -3154,8 +3508,8 @@ class EmitIO:
                 return self.seq(rest, tail, ctx)
             if e[0] == "iflet":
                 return self.iflet(e, rest, tail, ctx, True)
-            if e[0] == "try":
-                inner = e[1]
+            if self.as_try(e) is not None:
+                inner = self.as_try(e)
                 if inner[0] == "mcall":
                     r = self.resolve(inner[1], inner[2])
                     if r is not None and r[0] == "dropped":
@@ -3241,13 +3595,13 @@ class EmitIO:
         lines = ["if %s then do" % cc] + ind(a) + ["else do"] + ind(b)
         return io_attach("let %s ← " % tup if vs else "", lines) + self.seq(rest, tail, ctx)
 
-    def loop_frame(self, what, node, asg):
+    def loop_frame(self, what, node, asg, vectors=False):
         """what a loop needs: (state variables, fixed variables, context parameters)"""
         w = self.where
         for v in asg:
             if v not in self.vt:
                 fail("%s: assignment to the unknown variable `%s`" % (w, v))
-            if self.vt[v] not in NUMERIC and self.vt[v] != "bool":
+            if self.vt[v] not in NUMERIC and self.vt[v] != "bool" and not (vectors and self.vt[v] in ("pairs", "sizestats", "lenstats")):
                 fail("%s: loop variable `%s` of class %r" % (w, v, self.vt[v]))
         vs = [v for v in self.order if v in asg]
         for v in vs:
@@ -3317,6 +3671,102 @@ class EmitIO:
         return out + ["let loopRes ← " + call, "match loopRes with", "| .inl loopRet =>"] + ind(ctx.ret_pure("loopRet")) + [
             "| .inr %s =>" % state] + ind(self.seq(rest, tail, ctx))
 
+    def for_(self, st, rest, tail, ctx):
+        """`for x in <source> { … }` (no `return` / `break` / `continue` inside): an auxiliary function over the
+        variables the body assigns.  Sources: `0..n` and a constant array (structural recursion over the list
+        `List.range n` / the array); in the engine `self.key_piece_offset_iter()` / `self.value_piece_offset_iter()`
+        (the walk over all pieces of a record file, chain of wrappers pinned in io_pin_piece_iters: `PieceOffsetIter::new`
+        once, `next_piece_offset` per round, each `.unwrap()`ed = failure of the monad; recursion on `fuel`)."""
+        w = self.where
+        _, pat, it, body = st
+        if body[2] is not None:
+            fail(w + ": `for` body with a value")
+        if io_contains_return(body):
+            fail(w + ": `return` inside a `for` loop")
+        if any(n[0] == "path" and n[1] in (["break"], ["continue"]) for n in io_walk(body)):
+            fail(w + ": `break` / `continue`")
+        if self.in_loop:
+            fail(w + ": `for` inside a loop")
+        if pat[0] != "pvar" or pat[1] == "_":
+            fail(w + ": `for` with a pattern that is not a variable")
+        walk = None
+        if it[0] == "range":
+            if it[1] != ("num", 0):
+                fail(w + ": `for` over a range that does not start at 0")
+            ht, hty = self.px(it[2])
+            if hty != "int":
+                fail("%s: `for` over `0..e` with `e` of class %r" % (w, hty))
+            src, icls = "(List.range %s)" % io_atom(ht), "int"
+            iw = self.width.get(it[2][1][0]) if (it[2][0] == "path" and len(it[2][1]) == 1) else None
+        elif it[0] == "path":
+            src, sty_ = self.px(it)
+            if sty_ != "intlist":
+                fail("%s: `for` over a value of class %r" % (w, sty_))
+            icls, iw = "int", None
+        elif (self.f.engine and self.f.eng_self and it[0] == "mcall" and it[1] == ("path", ["self"]) and not it[3]
+              and it[2] in ("key_piece_offset_iter", "value_piece_offset_iter")):
+            via = "key" if it[2].startswith("key") else "val"
+            g_new, g_next = self.table.get(("PieceOffsetIter", "new")), self.table.get(("PieceOffsetIter", "next_piece_offset"))
+            if g_new is None or g_next is None:
+                fail(w + ": the walk over the pieces (`PieceOffsetIter`) is not translated")
+            walk = (via,) + IO_PIECEA_INST[via]
+            icls, iw = "Offset", None
+        else:
+            fail("%s: `for` over something that is not `0..n`, a constant array, `self.key_piece_offset_iter()` / "
+                 "`self.value_piece_offset_iter()`" % w)
+        vs, extra, needs = self.loop_frame("`for` loop", body, io_assigned(body[1], w), vectors=True)
+        if not vs:
+            fail(w + ": `for` loop that assigns no variable")
+        if pat[1] in vs or pat[1] in extra:
+            fail("%s: the loop variable `%s` hides a variable used in the loop" % (w, pat[1]))
+        self.nloops += 1
+        name = self.f.lean + "Loop" + ("" if self.nloops == 1 else str(self.nloops))
+        binders, fixed, state, sty = self.loop_sig(vs, extra, needs)
+        res_ty = sty[1:-1] if len(vs) > 1 else sty
+        snap = self.snapshot()
+        used = dict(self.lean_used)
+        for v in vs:
+            self.forget(v)
+        self.in_loop = True
+        item = self.declare(pat[1], icls)
+        if iw:
+            self.width[pat[1]] = iw
+        if walk is None:
+            reccall = "%s%s loopRest %s" % (name, fixed, state)
+        else:
+            reccall = "%s%s fuel (loopIter, %s)" % (name, fixed, state)
+        blines = self.scoped(body[1], None, CtxLoop(self, reccall, False))
+        self.in_loop = False
+        self.restore(snap, vs)
+        self.lean_used = used
+        if walk is None:
+            text = ["def %s %s: List Nat → %s → %s (%s)" % (name, binders, sty, self.f.monad, res_ty),
+                    "  | [], %s => pure %s" % (state, state),
+                    "  | %s :: loopRest, %s => do" % (item, state)] + ind(blines, 4)
+            doc = ("the `for` loop of %s over %s; state %s = the variables it assigns (`%s`); one round per element "
+                   "(structural recursion over the list); the result is the state after the last round"
+                   % (self.f.src, "`0..n` = `List.range n`" if it[0] == "range" else "the array `%s`" % io_text(it),
+                      state, "`, `".join(vs)))
+            self.aux.append((doc, "\n".join(text)))
+            return ["let %s ← %s%s %s %s" % (state, name, fixed, src, state)] + self.seq(rest, tail, ctx)
+        via, inst, lift = walk
+        ity = io_lean_ty(("tuple", [fc for _f, fc in IO_STRUCTS["PieceOffsetIter"]["fields"]]))
+        text = ["def %s %s: Nat → (%s) × %s → %s (%s)" % (name, binders, ity, io_atom(sty), self.f.monad, res_ty),
+                "  | 0, _ => " + self.f.failtxt,
+                "  | fuel+1, (loopIter, %s) => do" % state,
+                "    let (loopItem, loopIter) ← %s (%s %s loopIter)" % (lift, g_next.lean, inst),
+                "    match loopItem with",
+                "    | none => pure %s" % state,
+                "    | some %s =>" % item] + ind(blines, 6)
+        doc = ("the `for` loop of %s over `self.%s()`: the walk over all pieces of the %s file (`%s`); `loopIter` = the "
+               "`PieceOffsetIter` (`Iterator::next` = `next_piece_offset().unwrap()`: `Err` is the failure of the monad); state %s "
+               "= the variables the body assigns (`%s`); one round per unit of `fuel`, `fuel = 0` fails; the result is the state "
+               "when the walk is over" % (self.f.src, it[2], "key" if via == "key" else "value", inst, state, "`, `".join(vs)))
+        self.aux.append((doc, "\n".join(text)))
+        return ["let loopIter ← %s (%s %s)" % (lift, g_new.lean, inst),
+                "let loopFuel ← " + self.f.fueltxt,
+                "let %s ← %s%s (loopFuel + 1) (loopIter, %s)" % (state, name, fixed, state)] + self.seq(rest, tail, ctx)
+
     def loop_(self, st, rest, tail, ctx):
         """`loop { … }` as the last statement of the function, left only by `return`: an auxiliary function
         over the variables the body assigns whose value is the value of the function"""
@@ -3363,19 +3813,33 @@ def io_call_target(f, n, handles=None):
     if rt == "self" and f.owner in ("VarFileValueCache", "VarFileKeyCache"):
         return ((f.owner, n[2]), None, None)
     if n[1][0] == "path" and len(n[1][1]) == 1 and n[1][1][0] in f.struct_params:
-        return ((f.struct_params[n[1][1][0]], n[2]), None, None)
+        return ((f.struct_params[n[1][1][0]], n[2]), "self" if f.state else None, None)
     if f.engine:
+        hs = handles if handles is not None else f.handles
+        # the map (`FileDbXxxInner`) is `self` in its own methods, a handle `h = RefCell::borrow(&db_map)` in an iterator
+        root = n[1]
+        while root[0] == "field":
+            root = root[1]
+        rt = None
+        if root[0] == "path" and len(root[1]) == 1:
+            if root[1][0] == "self" and f.eng_self:
+                rt = io_text(n[1])
+            elif hs.get(root[1][0]) == "eng":
+                rt = "self" + io_text(n[1])[len(root[1][0]):]
         if rt in ("self.key_file", "self.val_file"):
             owner, via, wr = f.wrappers[rt[len("self."):]]
             if n[2] not in wr:
-                return (("?" + rt, n[2]), via, None)
+                # not a plain wrapper: a method of the handle that is translated itself (`count_of_free_key_piece`)
+                return (({"key": "KeyFile", "val": "ValueFile"}[via], n[2]), via, None)
             inner, nparams, spec = wr[n[2]]
             return ((owner, inner), via, (nparams, spec))
         if rt == "self.htx_file":
             return (("HtxFile", n[2]), "htx", None)
-        hs = handles if handles is not None else f.handles
         if n[1][0] == "path" and len(n[1][1]) == 1 and hs.get(n[1][1][0]) == "key":
             return (("VarFileKeyCache", n[2]), "key", None)
+        if (n[1][0] == "field" and n[1][2] == "file" and n[1][1][0] == "path" and len(n[1][1][1]) == 1
+                and hs.get(n[1][1][1][0]) == "htx"):
+            return (("VarFile", n[2]), "htx", None)                 # `<VarFileHtxCache>.file`
         if rt == "self":
             return (("Engine", n[2]), "self", None)
     return None
@@ -3421,6 +3885,7 @@ _KP = {"offset": "off", "size": "size", "key": "key", "value_offset": "valueOffs
 _VP_W = dict(_VP, size="-size")
 _KP_W = dict(_KP, size="-size")
 
+_PI_ST = "Nat × Nat × Nat"
 # the functions of FileOps.lean: (owner, rust name, file, Lean name, signature without the generic
 # parameter list, Lean names of the parameters [a piece struct: {field: Lean name}; the `&self` of a
 # piece struct comes first; `None` for the `&mut VarFile`], expected Lean signature,
@@ -3542,6 +4007,27 @@ IO_FUNCS = [
     ("HtxFile", "read_item_count", IO_HTX, "htxReadItemCountH", "(&self) -> Result<u64>", [], ": M Nat"),
     ("HtxFile", "write_item_count_up", IO_HTX, "htxWriteItemCountUp", "(&mut self) -> Result<()>", [], ": M Unit"),
     ("HtxFile", "write_item_count_down", IO_HTX, "htxWriteItemCountDown", "(&mut self) -> Result<()>", [], ": M Unit"),
+    # ---- statistics (`CheckFileDbMap`): the trait `PieceA` of the two record files, the walk over all pieces
+    #      (piece.rs `PieceOffsetIter<T>`: the struct is the state tuple (piece_offset_start, piece_offset_end, piece_offset),
+    #      its `file_a: Box<dyn PieceA<T>>` the parameter `fileA : PieceA`), the free-list counts, the filling rate
+    ("KeyFilePieceA", "piece_offset_start", IO_KEY, "keyPieceOffsetStart", "(&self) -> Result<PieceOffset<Key>>", [], ": M Nat"),
+    ("KeyFilePieceA", "piece_offset_end", IO_KEY, "keyPieceOffsetEnd", "(&self) -> Result<PieceOffset<Key>>", [], ": M Nat"),
+    ("KeyFilePieceA", "piece_size", IO_KEY, "keyPieceSize", "(&self, offset: PieceOffset<Key>) -> Result<PieceSize<Key>>",
+     ["off"], "(off : Nat) : M Nat"),
+    ("ValueFilePieceA", "piece_offset_start", IO_VAL, "valPieceOffsetStart", "(&self) -> Result<PieceOffset<Value>>", [], ": M Nat"),
+    ("ValueFilePieceA", "piece_offset_end", IO_VAL, "valPieceOffsetEnd", "(&self) -> Result<PieceOffset<Value>>", [], ": M Nat"),
+    ("ValueFilePieceA", "piece_size", IO_VAL, "valPieceSize", "(&self, offset: PieceOffset<Value>) -> Result<PieceSize<Value>>",
+     ["off"], "(off : Nat) : M Nat"),
+    ("PieceOffsetIter", "new", IO_PI, "pieceOffsetIterNew", "(file_a: Box<dyn PieceA<T>>) -> Result<Self>", [None],
+     "(fileA : PieceA) : M (%s)" % _PI_ST, {"assoc": True}),
+    ("PieceOffsetIter", "next_piece_offset", IO_PI, "pieceOffsetIterNextPieceOffset", "(&mut self) -> Result<Option<PieceOffset<T>>>",
+     [], "(fileA : PieceA) (st : %s) : M (Option Nat × (%s))" % (_PI_ST, _PI_ST)),
+    ("KeyFile", "count_of_free_key_piece", IO_KEY, "keyCountOfFreeKeyPiece", "(&self) -> Result<Vec<(u32, u64)>>", [],
+     "(c : FileCfg) : M (List (Nat × Nat))"),
+    ("ValueFile", "count_of_free_value_piece", IO_VAL, "valCountOfFreeValuePiece", "(&self) -> Result<Vec<(u32, u64)>>", [],
+     "(c : FileCfg) : M (List (Nat × Nat))"),
+    ("HtxFile", "htx_filling_rate_per_mill", IO_HTX, "htxFillingRatePerMillH", "(&self) -> Result<(u64, u32)>", [],
+     "(bucketsSize : Nat) : M (Nat × Nat)"),
 ]
 
 # the engine (dbxxx.rs `FileDbXxxInner<KT>`) -> Engine.lean, monad `DbM` over the three files.
@@ -3552,6 +4038,10 @@ _ENG_I = "impl<KT: DbMapKeyType> FileDbXxxInner<KT>"
 _ENG_B = "impl<KT: DbMapKeyType> DbXxxBase for FileDbXxxInner<KT>"
 _ENG_O = "impl<KT: DbMapKeyType> DbXxxObjectSafe<KT> for FileDbXxxInner<KT>"
 _CMP = "(cmp : List Nat → List Nat → Option Ordering)"
+_ENG_C = "impl<KT: DbMapKeyType + std::fmt::Display> CheckFileDbMap for FileDbXxxInner<KT>"
+_IT = "DbXxxIterMut"
+_IT_I = "impl<KT: DbMapKeyType> DbXxxIterMut<KT>"
+_IT_ST = "Nat × Nat × Nat × Nat"
 ENG_FUNCS = [
     (ENG, "load_value", IO_DBX, "loadValue", "(&self, piece_offset: KeyPieceOffset) -> Result<Vec<u8>>", ["off"],
      "(off : Nat) : DbM (List Nat)", {"impl": _ENG_I}),
@@ -3575,6 +4065,40 @@ ENG_FUNCS = [
      {"impl": _ENG_O, "hash": True}),
     (ENG, "includes_key_kt", IO_DBX, "includesKeyKt", "(&mut self, key_kt: &KT) -> Result<bool>", ["key"],
      "(bucketsSize : Nat) %s (hash : Nat) (key : List Nat) : DbM Bool" % _CMP, {"impl": _ENG_O, "hash": True}),
+    # ---- the iterator state machine `DbXxxIterMut<KT>`: the struct is the explicit state tuple
+    #      (remaining_item_count, buckets_size, buckets_idx, key_offset); the map behind it is the state of `DbM`
+    (ENG, "load_key_data", IO_DBX, "loadKeyData", "(&self, piece_offset: KeyPieceOffset) -> Result<KT>", ["off"],
+     "(off : Nat) : DbM (List Nat)", {"impl": _ENG_I}),
+    (_IT, "new", IO_DBX, "iterNew", "(db_map: Rc<RefCell<FileDbXxxInner<KT>>>) -> Result<Self>", [None],
+     ": DbM (%s)" % _IT_ST, {"impl": _IT_I, "assoc": True}),
+    (_IT, "next_piece_offset", IO_DBX, "iterNextPieceOffset", "(&mut self) -> Option<KeyPieceOffset>", [],
+     "(st : %s) : DbM (Option Nat × (%s))" % (_IT_ST, _IT_ST), {"impl": _IT_I, "plain": True, "fuel": "DbM.htxLen"}),
+    (_IT, "next", IO_DBX, "iterNext", "(&mut self) -> Option<(KT, Vec<u8>)>", [],
+     "(st : %s) : DbM (Option (List Nat × List Nat) × (%s))" % (_IT_ST, _IT_ST),
+     {"impl": "impl<KT: DbMapKeyType> Iterator for DbXxxIterMut<KT>", "plain": True}),
+    # ---- statistics (`impl CheckFileDbMap for FileDbXxxInner`)
+    (ENG, "load_key_piece_size", IO_DBX, "loadKeyPieceSize", "(&self, piece_offset: KeyPieceOffset) -> Result<KeyPieceSize>", ["off"],
+     "(off : Nat) : DbM Nat", {"impl": _ENG_I}),
+    (ENG, "load_key_length", IO_DBX, "loadKeyLength", "(&self, piece_offset: KeyPieceOffset) -> Result<KeyLength>", ["off"],
+     "(off : Nat) : DbM Nat", {"impl": _ENG_I}),
+    (ENG, "load_value_piece_size", IO_DBX, "loadValuePieceSize", "(&self, piece_offset: ValuePieceOffset) -> Result<ValuePieceSize>",
+     ["off"], "(off : Nat) : DbM Nat", {"impl": _ENG_I}),
+    (ENG, "load_value_length", IO_DBX, "loadValueLength", "(&self, piece_offset: ValuePieceOffset) -> Result<ValueLength>", ["off"],
+     "(off : Nat) : DbM Nat", {"impl": _ENG_I}),
+    (ENG, "key_piece_size_stats", IO_DBX, "keyPieceSizeStats", "(&self) -> Result<RecordSizeStats<Key>>", [],
+     ": DbM (List (Nat × Nat))", {"impl": _ENG_C}),
+    (ENG, "value_piece_size_stats", IO_DBX, "valuePieceSizeStats", "(&self) -> Result<RecordSizeStats<Value>>", [],
+     ": DbM (List (Nat × Nat))", {"impl": _ENG_C, "fuel": "DbM.valLen"}),
+    (ENG, "key_length_stats", IO_DBX, "keyLengthStats", "(&self) -> Result<LengthStats<Key>>", [],
+     ": DbM (List (Nat × Nat))", {"impl": _ENG_C}),
+    (ENG, "value_length_stats", IO_DBX, "valueLengthStats", "(&self) -> Result<LengthStats<Value>>", [],
+     ": DbM (List (Nat × Nat))", {"impl": _ENG_C, "fuel": "DbM.valLen"}),
+    (ENG, "count_of_free_key_piece", IO_DBX, "countOfFreeKeyPiece", "(&self) -> Result<CountOfPerSize>", [],
+     "(kc : FileCfg) : DbM (List (Nat × Nat))", {"impl": _ENG_C}),
+    (ENG, "count_of_free_value_piece", IO_DBX, "countOfFreeValuePiece", "(&self) -> Result<CountOfPerSize>", [],
+     "(vc : FileCfg) : DbM (List (Nat × Nat))", {"impl": _ENG_C}),
+    (ENG, "htx_filling_rate_per_mill", IO_DBX, "htxFillingRatePerMill", "(&self) -> Result<(u64, u32)>", [],
+     "(bucketsSize : Nat) : DbM (Nat × Nat)", {"impl": _ENG_C}),
 ]
 
 
@@ -3629,13 +4153,18 @@ def io_pin_semtype(repo, feats):
 def io_pin_structs(repo, feats, pure_names):
     """the definitions of the piece structs, of the constructors used, of the wrappers around the VarFile"""
     for name, st in IO_STRUCTS.items():
-        lead = "pub struct " + name
+        lead = st.get("lead", "pub struct " + name)
         got = io_find_item_tokens(repo, st["file"], lead)
         want = [v for _k, v in tokenize(st["decl"])]
         if got != want:
             fail("%s: the definition of `%s` is `%s`, the translation is configured for `%s`"
                  % (st["file"], name, " ".join(got), " ".join(want)))
-        if [f for f, _c in st["fields"]] != re.findall(r"pub (\w+) :", " ".join(want)):
+        if st.get("state"):
+            inner = " ".join(want[want.index("{") + 1:])
+            if list(st["handles"]) + [f for f, _c in st["fields"]] != re.findall(r"(?:^|, )(\w+) :", inner) \
+                    or sorted(st["lean"]) != sorted(f for f, _c in st["fields"]):
+                fail("%s: configuration error: fields of `%s`" % (st["file"], name))
+        elif [f for f, _c in st["fields"]] != re.findall(r"pub (\w+) :", " ".join(want)):
             fail("%s: configuration error: fields of `%s`" % (st["file"], name))
         methods = io_find_methods(repo, feats, st["file"], st["impl"])
         for ctor, (txt, _how) in st["ctors"].items():
@@ -3655,6 +4184,53 @@ def io_pin_structs(repo, feats, pure_names):
             src = strip_comments(open(os.path.join(repo, pin[0])).read())
             if len(re.findall(pin[1], src)) != 1:
                 fail("%s: `%s` is not the tuple struct around the VarFile the translation is configured for" % (pin[0], owner))
+
+
+def io_pin_stats(repo, feats, pure_names):
+    """piece.rs: the trait `PieceA<T>` (IO_PIECEA); src/filedb/mod.rs: the statistics vectors (IO_STATS) and `CountOfPerSize`"""
+    io_pin_tokens(repo, IO_PI, "pub(crate) trait PieceA",
+                  "pub(crate) trait PieceA<T> { fn piece_offset_start(&self) -> Result<PieceOffset<T>>; "
+                  "fn piece_offset_end(&self) -> Result<PieceOffset<T>>; "
+                  "fn piece_size(&self, offset: PieceOffset<T>) -> Result<PieceSize<T>>; }", "the definition of the trait `PieceA`")
+    io_pin_tokens(repo, IO_MOD_RS, "pub struct RecordSizeStats",
+                  "#[derive(Debug, Default)] pub struct RecordSizeStats<T>(Vec<(PieceSize<T>, u64)>);",
+                  "the definition of `RecordSizeStats`")
+    io_pin_tokens(repo, IO_MOD_RS, "pub struct LengthStats",
+                  "#[derive(Debug, Default)] pub struct LengthStats<T: Default>(Vec<(Length<T>, u64)>);",
+                  "the definition of `LengthStats`")
+    io_pin_tokens(repo, IO_MOD_RS, "pub type CountOfPerSize", "pub type CountOfPerSize = Vec<(u32, u64)>;",
+                  "the definition of `CountOfPerSize`")
+    for sn, (_cls, m, _ac, lean) in IO_STATS.items():
+        if lean not in pure_names:
+            fail("%s: `%s::%s`: its translation `%s` is not in Funcs.lean" % (IO_MOD_RS, sn, m, lean))
+
+
+def io_pin_piece_iters(repo, feats, methods):
+    """`for off in self.key_piece_offset_iter()` / `self.value_piece_offset_iter()` (dbxxx.rs): the layers between the
+    `for` and `PieceOffsetIter<T>` are plain wrappers (pinned token-wise): the loop is `PieceOffsetIter::new(<the file as
+    dyn PieceA>).unwrap()` once and `next_piece_offset().unwrap()` per round"""
+    def pin(rel, header, name, want):
+        if (rel, header) not in methods:
+            methods[(rel, header)] = io_find_methods(repo, feats, rel, header)
+        cands = methods[(rel, header)].get(name, [])
+        got = [v for _k, v in cands[0][0]] if len(cands) == 1 else None
+        if got != [v for _k, v in tokenize(want)]:
+            fail("%s::<%s>::%s is `%s`, the translation of the `for` loops over the pieces is configured for `%s`"
+                 % (rel, header, name, " ".join(got) if got else "(%d definitions)" % len(cands), want))
+    for rel, eng_m, it, hdr_file, file_ty, gen, arg, tag in (
+            (IO_KEY, "key_piece_offset_iter", "KeyPieceOffsetIter", "impl<KT: DbMapKeyType> KeyFile<KT>", "&KeyFile<KT>",
+             "<KT: DbMapKeyType>", "key_file", "Key"),
+            (IO_VAL, "value_piece_offset_iter", "ValuePieceOffsetIter", "impl ValueFile", "&ValueFile", "", "val_file", "Value")):
+        pin(IO_DBX, _ENG_I, eng_m, "fn %s(&self) -> %s { self.%s.piece_offset_iter() }" % (eng_m, it, arg))
+        pin(rel, hdr_file, "piece_offset_iter", "fn piece_offset_iter(&self) -> %s { %s::new(self).unwrap() }" % (it, it))
+        io_pin_tokens(repo, rel, "pub(crate) struct " + it,
+                      "#[derive(Debug)] pub(crate) struct %s { piece_iter: PieceOffsetIter<%s>, }" % (it, tag),
+                      "the definition of `%s`" % it)
+        pin(rel, "impl " + it, "new", "fn new%s(%s: %s) -> Result<Self> { let piece_iter = PieceOffsetIter::<%s>::new(Box::new(%s.clone()))?; "
+            "Ok(Self { piece_iter }) }" % (gen, arg, file_ty, tag, arg))
+        pin(rel, "impl " + it, "next_piece_offset", "fn next_piece_offset(&mut self) -> Result<Option<PieceOffset<%s>>> "
+            "{ self.piece_iter.next_piece_offset() }" % tag)
+        pin(rel, "impl Iterator for " + it, "next", "fn next(&mut self) -> Option<%sPieceOffset> { self.next_piece_offset().unwrap() }" % tag)
 
 
 def io_struct_fields(owner_where, sname, cfg):
@@ -3689,6 +4265,7 @@ def io_pin_htx(repo, feats, const_srcs):
                   "the definition of `HtxFile`")
     for rel, names in IO_CONSTS.items():
         for rust, lean in names.items():
+            lean = io_const_name(lean)
             if const_srcs.get(lean) != "%s `%s`" % (rel, rust):
                 fail("%s: the constant `%s` is not `%s` of Consts.lean" % (rel, rust, lean))
     src = strip_comments(open(os.path.join(repo, IO_ST)).read())
@@ -3790,6 +4367,38 @@ def io_pin_engine(repo, feats):
         fail("src/lib.rs: `DbMapKeyType::cmp_u8(&self, other: &[u8]) -> std::cmp::Ordering` not found")
 
 
+def io_plumbing(f, st, handles):
+    """the `RefCell` plumbing around the shared structs, pinned by shape: a statement
+    `let [mut] h = RefCell::borrow(&X);` / `RefCell::borrow_mut(&X)` / `X.borrow()` / `X.borrow_mut()` with
+      X = the `db_map` parameter / `self.db_map` of an iterator struct  -> h is the map (`FileDbXxxInner`): kind `eng`
+      X = <map>.key_file.0 (borrow_mut)                                 -> h is the key file (`VarFileKeyCache`): `key`
+      X = <map>.htx_file.0 (borrow_mut)                                 -> h is the `VarFileHtxCache` (`h.file`): `htx`
+      X = self.0 (borrow_mut) in a method of a handle (IO_LOCKS)        -> `h.0` is the VarFile: `lock`
+    -> (h, kind, text of the statement) or None.  <map> = a handle of kind `eng`."""
+    if st[0] != "let" or st[1][0] != "pvar" or st[2] is not None:
+        return None
+    h, e = st[1][1], st[3]
+    if e[0] == "call" and e[1] in (["RefCell", "borrow"], ["RefCell", "borrow_mut"]) and len(e[2]) == 1:
+        x, how = e[2][0], e[1][1]
+        txt = "RefCell::%s(&%s)" % (how, io_text(x))
+    elif e[0] == "mcall" and e[2] in ("borrow", "borrow_mut") and not e[3]:
+        x, how = e[1], e[2]
+        txt = "%s.%s()" % (io_text(x), how)
+    else:
+        return None
+    txt = "let %s%s = %s;" % ("mut " if st[4] else "", h, txt)
+    if x[0] == "path" and len(x[1]) == 1 and f.handle_params.get(x[1][0]) == "dbmap":
+        return (h, "eng", txt)
+    if f.state and x[0] == "field" and x[1] == ("path", ["self"]) and IO_STRUCTS[f.state]["handles"].get(x[2]) == "dbmap":
+        return (h, "eng", txt)
+    if (how == "borrow_mut" and x[0] == "field" and x[2] == "0" and x[1][0] == "field" and x[1][2] in ("key_file", "htx_file")
+            and x[1][1][0] == "path" and len(x[1][1][1]) == 1 and handles.get(x[1][1][1][0]) == "eng"):
+        return (h, "key" if x[1][2] == "key_file" else "htx", txt)
+    if f.lock and how == "borrow_mut" and h == f.lock and st[4] and x == ("field", ("path", ["self"]), "0"):
+        return (h, "lock", txt)
+    return None
+
+
 # the statement `let hash = HashValue::new(key_kt.hash_value());` that opens the four API functions
 IO_HASH_STMT = ("let", ("pvar", "hash"), None,
                 ("call", ["HashValue", "new"], [("mcall", ("path", ["key_kt"]), "hash_value", [])]), False)
@@ -3800,7 +4409,12 @@ def io_build_fn(repo, feats, methods, spec, engine):
     owner, rust, rel, lean, sig, pnames, lsig = spec[:7]
     opts = spec[7] if len(spec) > 7 else None
     ret_fields = opts if isinstance(opts, list) else None
-    header, vf_text, _pin = IO_OWNERS[owner][:3] if not engine else (spec[7]["impl"], None, None)
+    if not isinstance(opts, dict):
+        opts = {}
+    header, vf_text, _pin = IO_OWNERS[owner][:3] if not engine else (opts["impl"], None, None)
+    if "impl" in opts:
+        header = opts["impl"]
+    state = owner if (owner in IO_STRUCTS and IO_STRUCTS[owner].get("state")) else None
     where = "%s::<%s>::%s" % (rel, header, rust)
     if (rel, header) not in methods:
         methods[(rel, header)] = io_find_methods(repo, feats, rel, header)
@@ -3808,7 +4422,9 @@ def io_build_fn(repo, feats, methods, spec, engine):
     if len(cands) != 1:
         fail("%s: %d definitions with a true `#[cfg]` (exactly one expected)" % (where, len(cands)))
     toks, blockdesc = cands[0]
-    recv, params, ret, ib = io_parse_sig(toks, where)
+    recv, params, ret, ib = io_parse_sig(toks, where, assoc=bool(opts.get("assoc")))
+    if (recv is None) != bool(opts.get("assoc")):
+        fail("%s: configuration error: receiver / associated function" % where)
     got = [v for _k, v in toks[2:ib]]
     if got and got[0] == "<":
         depth, j = 0, 0
@@ -3822,15 +4438,32 @@ def io_build_fn(repo, feats, methods, spec, engine):
     want = io_strip_tc([v for _k, v in tokenize(sig)])
     if got != want:
         fail("%s: signature is `%s`, the translation is configured for `%s`" % (where, " ".join(got), " ".join(want)))
-    if not (ret.startswith("Result<") and ret.endswith(">")):
-        fail("%s: the return type `%s` is not `Result<..>`" % (where, ret))
     f = IoFn()
+    # a function that does not return a `Result` (`next_piece_offset`, `Iterator::next`): its value is the
+    # value of the Lean function; a panic inside (`.unwrap()` of an `Err`) is the failure of the monad
+    f.plain = bool(opts.get("plain"))
+    if not f.plain and not (ret.startswith("Result<") and ret.endswith(">")):
+        fail("%s: the return type `%s` is not `Result<..>`" % (where, ret))
+    if f.plain and ret.startswith("Result<"):
+        fail("%s: configuration error: the function returns a `Result`" % where)
     f.owner, f.rust, f.rel, f.lean, f.where, f.lsig = owner, rust, rel, lean, where, lsig
     f.engine = engine
     f.monad, f.failtxt, f.fueltxt = ("DbM", "DbM.fail", "DbM.keyLen") if engine else ("M", "FileM.fail", "FileM.fileLen")
+    if "fuel" in opts:
+        f.fueltxt = opts["fuel"]
     f.src = "%s %s, `fn %s`" % (rel, blockdesc, rust)
     f.ret_text = ret
-    f.ret = io_sig_type(ret[len("Result<"):-1], where)
+    rtxt = ret if f.plain else ret[len("Result<"):-1]
+    f.state = state if (state and recv is not None) else None     # `&mut self` is threaded through as the tuple `st`
+    f.eng_self = engine and state is None                         # `self` is the `FileDbXxxInner`
+    f.handle_params = {}                                          # parameter -> kind of handle (`dbmap`, `piecea`)
+    f.lock = IO_LOCKS.get(owner)
+    if rtxt == "Self" and state and recv is None:
+        # the constructor of an iterator struct: its value is the state tuple
+        f.ret = ("struct", state)
+        ret_fields = [x for x, _c in IO_STRUCTS[state]["fields"]]
+    else:
+        f.ret = io_sig_type(rtxt, where)
     f.ret_fields, f.ret_omitted = None, None
     if isinstance(f.ret, tuple) and f.ret[0] == "struct":
         names = [x for x, _c in IO_STRUCTS[f.ret[1]]["fields"]]
@@ -3847,14 +4480,27 @@ def io_build_fn(repo, feats, methods, spec, engine):
     f.field_params = {}
     f.consts = dict(IO_CONSTS.get(rel, {}))
     f.pre_notes = []
-    f.recv_struct = owner in IO_STRUCTS
+    f.remarks = []
+    f.unwrap_fails = f.plain
+    f.recv_struct = owner in IO_STRUCTS and not state
     pn = list(pnames)
     if f.recv_struct:
         if recv != "&self" or not pn:
             fail("%s: the receiver is `%s` (`&self` expected for a method of a piece struct)" % (where, recv))
         f.params.append(IoParam("self", ("struct", owner), fields=io_struct_fields(where, owner, pn.pop(0))))
         f.struct_params["self"] = owner
-    elif recv != "&mut self" and not (engine or owner == "HtxFile"):
+    elif f.state:
+        if recv != "&mut self":
+            fail("%s: the receiver is `%s` (`&mut self` expected for a method of an iterator struct)" % (where, recv))
+        st_ = IO_STRUCTS[state]
+        sp = IoParam("self", ("struct", state), fields=[(fld, fc, st_["lean"][fld], True) for fld, fc in st_["fields"]])
+        sp.state = True
+        sp.handles = [IO_HANDLE_LEAN[k_] for k_ in st_["handles"].values() if k_ in IO_HANDLE_LEAN]
+        f.params.append(sp)
+        f.struct_params["self"] = state
+    elif recv is None:
+        pass
+    elif recv != "&mut self" and not (engine or owner == "HtxFile" or f.lock):
         fail("%s: the receiver is not `&mut self`" % where)
     if engine and opts.get("hash"):
         # the hash of the key is computed by the caller
@@ -3875,9 +4521,16 @@ def io_build_fn(repo, feats, methods, spec, engine):
             if not isinstance(ln, str):
                 fail("%s: configuration error: Lean name of `%s`" % (where, prust))
             f.params.append(IoParam(prust, cls, lean=ln, width=pt if pt in WIDTH else None))
+        elif cls in ("dbmap", "piecea"):
+            # a handle: the map behind the iterator (the state of `DbM`, no Lean parameter), the trait object of a file
+            if ln is not None or not state or IO_STRUCTS[state]["handles"].get(prust) != cls:
+                fail("%s: configuration error: handle parameter `%s`" % (where, prust))
+            f.handle_params[prust] = cls
+            f.params.append(IoParam(prust, cls, lean=IO_HANDLE_LEAN[cls][0] if cls in IO_HANDLE_LEAN else None))
         else:
             fail("%s: parameter `%s` of class %r" % (where, prust, cls))
-    if len(f.vf_texts) != (0 if engine else 1):
+    no_vf = engine or (state is not None)
+    if len(f.vf_texts) != (0 if no_vf else 1):
         fail("%s: %d expressions denote the VarFile (exactly one expected)" % (where, len(f.vf_texts)))
     p = P(toks[ib:], feats, where)
     p.keep_try = True
@@ -3914,10 +4567,19 @@ def io_build_fn(repo, feats, methods, spec, engine):
             if n[0] == "let" and n[3] == ("mcall", ("field", ("field", ("path", ["self"]), "key_file"), "0"), "borrow_mut", []) \
                     and n[1][0] == "pvar":
                 f.handles[n[1][1]] = "key"
-        for h in f.handles:
-            if sum(1 for n in io_walk(f.body) if n[0] in ("let", "iflet") and h in pat_vars(n[1])) != 1 or \
-                    any(p_.rust == h for p_ in f.params):
-                fail("%s: `%s` is declared more than once" % (where, h))
+    # the other `RefCell` plumbing (io_plumbing): names that stand for the map, its key file, its hash-table file
+    for n in io_walk(f.body):
+        if n[0] == "let":
+            pl = io_plumbing(f, n, f.handles)
+            if pl is not None:
+                if pl[0] in f.handles:
+                    fail("%s: `%s` is declared more than once" % (where, pl[0]))
+                if pl[1] != "lock":
+                    f.handles[pl[0]] = pl[1]
+    for h in list(f.handles) + ([f.lock] if f.lock else []):
+        if sum(1 for n in io_walk(f.body) if n[0] in ("let", "iflet") and h in pat_vars(n[1])) > 1 or \
+                any(p_.rust == h for p_ in f.params):
+            fail("%s: `%s` is declared more than once" % (where, h))
     return f
 
 
@@ -3942,6 +4604,14 @@ def io_translate(fns, specs, done, order):
         f.needs = io_needs(f.body, f, done)
         em = EmitIO(f, done)
         body = em.seq(f.body[1], f.body[2], CtxFn(em))
+        if f.state:
+            # the `&mut self`: the tuple `st` of the data fields, taken apart here, part of every value
+            sd = IO_STRUCTS[f.state]
+            body = ["let (%s) := st" % ", ".join(sd["lean"][fld] for fld, _fc in sd["fields"])] + body
+            f.remarks.append("`&mut self` is the tuple `st` = (%s); the value is (the value of the Rust function, the new `st`)"
+                             % ", ".join("`%s`" % fld for fld, _fc in sd["fields"]))
+        if getattr(em, "notes_unwrap", False):
+            f.remarks.append("`.unwrap()` of a `Result`: the panic on `Err` is the failure of the monad")
         f.aux = em.aux
         f.notes = sorted(set(em.notes)) + f.pre_notes + f.dropped
         if f.ret_fields is not None:
@@ -3952,12 +4622,20 @@ def io_translate(fns, specs, done, order):
             f.value_note = " Value: the fields (%s) of the returned `%s`; %s." % (
                 ", ".join("`%s`" % x for x in f.ret_fields), f.ret[1],
                 ", ".join("its `%s` is the unchanged parameter `%s`" % (k, v) for k, v in sorted(f.ret_omitted.items())))
+            if IO_STRUCTS[f.ret[1]].get("state"):
+                f.value_note = " Value: the tuple of the data fields (%s) of the new `%s`%s." % (
+                    ", ".join("`%s`" % x for x in f.ret_fields), f.ret[1],
+                    "".join("; its `%s` is the parameter" % h for h in IO_STRUCTS[f.ret[1]]["handles"]))
         else:
             rty = f.ret
             f.value_note = ""
+        rtxt = io_lean_ty(rty)
+        if f.state:
+            rtxt = "%s × (%s)" % ("(%s)" % rtxt if (isinstance(rty, tuple) and rty[0] == "tuple") else rtxt,
+                                  io_lean_ty(("tuple", [fc for _f, fc in IO_STRUCTS[f.state]["fields"]])))
         # the derived Lean signature must be the configured one
         lps = [(x, CTX_TYPES[x]) for x in f.needs] + [lp for p_ in f.params for lp in p_.lean_params()]
-        derived = " ".join(([io_group_params(lps)] if lps else []) + [": %s %s" % (f.monad, io_atom(io_lean_ty(rty)))])
+        derived = " ".join(([io_group_params(lps)] if lps else []) + [": %s %s" % (f.monad, io_atom(rtxt))])
         if derived != f.lsig:
             fail("%s: the Lean signature is `%s`, expected `%s`" % (f.where, derived, f.lsig))
         f.text = "def %s %s := do\n%s" % (f.lean, derived, "\n".join(ind(body)))
@@ -3972,15 +4650,17 @@ def io_write_fns(fh, order):
     for f in order:
         for doc, text in f.aux:
             fh.write("/-- %s -/\n%s\n\n" % (doc, text))
-        fh.write("/-- %s.%s%s%s -/\n%s\n\n" % (f.src, f.value_note,
-                                                (" Included: " + "; ".join(f.kept) + ".") if f.kept else "",
-                                                (" Dropped: " + "; ".join(f.notes) + ".") if f.notes else "", f.text))
+        fh.write("/-- %s.%s%s%s%s -/\n%s\n\n" % (f.src, f.value_note,
+                                                  (" " + "; ".join(f.remarks) + ".") if f.remarks else "",
+                                                  (" Included: " + "; ".join(f.kept) + ".") if f.kept else "",
+                                                  (" Dropped: " + "; ".join(f.notes) + ".") if f.notes else "", f.text))
 
 
 def emit_fileops(repo, feats, out, pure_names, const_srcs):
     io_pin_semtype(repo, feats)
     io_pin_structs(repo, feats, pure_names)
     io_pin_htx(repo, feats, const_srcs)
+    io_pin_stats(repo, feats, pure_names)
     methods = {}
     fns = {}
     for spec in IO_FUNCS:
@@ -3997,12 +4677,23 @@ def emit_fileops(repo, feats, out, pure_names, const_srcs):
         fh.write("set_option linter.unusedVariables false\n\nnamespace Abyss.Gen\nopen Abyss.FileM (M)\n\n")
         fh.write(IO_PRELUDE)
         io_write_fns(fh, order)
+        # the trait objects: `impl PieceA<Key> for KeyFile<KT>` / `impl PieceA<Value> for ValueFile`
+        for owner, inst in (("KeyFilePieceA", IO_PIECEA_INST["key"][0]), ("ValueFilePieceA", IO_PIECEA_INST["val"][0])):
+            flds = []
+            for m, (classes, rcls, lfield) in IO_PIECEA.items():
+                g = done[(owner, m)]
+                if g.needs or [p_.cls for p_ in g.params] != classes or g.ret != rcls:
+                    fail("%s: its signature is not that of the trait `PieceA`" % g.where)
+                flds.append("%s := %s" % (lfield, g.lean))
+            fh.write("/-- %s `%s`: the record file as the trait object `dyn PieceA<T>` -/\ndef %s : PieceA := { %s }\n\n"
+                     % (done[(owner, "piece_size")].rel, IO_OWNERS[owner][0], inst, ", ".join(flds)))
         fh.write("end Abyss.Gen\n")
     return len(order), done, methods
 
 
 def emit_engine(repo, feats, out, done, methods):
     io_pin_engine(repo, feats)
+    io_pin_piece_iters(repo, feats, methods)
     wrappers = {
         "key_file": ("VarFileKeyCache", "key", io_wrappers(repo, feats, IO_KEY, "impl<KT: DbMapKeyType> KeyFile<KT>",
                                                             "VarFileKeyCache", done)),
@@ -4030,6 +4721,174 @@ def emit_engine(repo, feats, out, done, methods):
     return len(order)
 
 
+# ----------------------------------------------------------------------------- flush / sync and the dirty flag
+# dbxxx.rs `impl DbXxxBase for FileDbXxxInner`: `flush`, `sync_all`, `sync_data` -> Abyss/Gen/FlushOps.lean, monad
+# `Abyss.FlushM β` (Abyss/FlushM.lean) over the three buffered files (any type `β`), the dirty flag and a fault counter
+FL_FILES = {"val_file": "FlushM.onVal", "key_file": "FlushM.onKey", "htx_file": "FlushM.onHtx"}
+FL_ACTS = {"flush": "flush", "sync_all": "syncAll", "sync_data": "syncData"}
+FL_FUNCS = [("flush", "mapFlush"), ("sync_all", "mapSyncAll"), ("sync_data", "mapSyncData")]
+FL_DIRTY = ("field", ("path", ["self"]), "dirty")
+FL_SET_TRUE = ("assign", "=", FL_DIRTY, ("path", ["true"]))
+FL_FIND = ("let", ("pvar", "opt"), None,
+           ("try", ("mcall", ("path", ["self"]), "find_in_hash_buckets_kt", [("path", ["hash"]), ("path", ["key_kt"])])), False)
+
+
+def fl_pin_method(repo, feats, methods, rel, header, name, want):
+    if (rel, header) not in methods:
+        methods[(rel, header)] = io_find_methods(repo, feats, rel, header)
+    cands = methods[(rel, header)].get(name, [])
+    if len(cands) != 1:
+        fail("%s::<%s>::%s: %d definitions with a true `#[cfg]` (exactly one expected)" % (rel, header, name, len(cands)))
+    got = [v for _k, v in cands[0][0]]
+    if got != [v for _k, v in tokenize(want)]:
+        fail("%s::<%s>::%s is `%s`, the translation is configured for `%s`" % (rel, header, name, " ".join(got), want))
+    return cands[0]
+
+
+def fl_block(stmts, tail, where, top):
+    """the statements of `flush` / `sync_all` / `sync_data`: do-items of `FlushM`"""
+    out = []
+    for st in stmts:
+        e = st[1] if st[0] == "expr" else None
+        if (e is not None and e[0] == "try" and e[1][0] == "mcall" and not e[1][3] and e[1][2] in FL_ACTS
+                and e[1][1][0] == "field" and e[1][1][1] == ("path", ["self"]) and e[1][1][2] in FL_FILES):
+            out.append("%s p.%s" % (FL_FILES[e[1][1][2]], FL_ACTS[e[1][2]]))       # `self.<f>_file.<act>()?;`
+        elif st[0] == "assign" and st[1] == "=" and st[2] == FL_DIRTY and st[3] in (("path", ["true"]), ("path", ["false"])):
+            out.append("FlushM.setDirty %s" % st[3][1][0])                             # `self.dirty = b;`
+        elif e is not None and e[0] == "if":
+            c, neg = e[1], False
+            if c[0] == "not":
+                c, neg = c[1], True
+            if c != ("mcall", ("path", ["self"]), "is_dirty", []):
+                fail("%s: the condition of an `if` is not `self.is_dirty()` / `!self.is_dirty()`" % where)
+            if e[2][2] is not None or (e[3] is not None and (e[3][0] != "block" or e[3][2] is not None)):
+                fail("%s: an `if` whose branches have values / `else if`" % where)
+            a = fl_block(e[2][1], None, where, False)
+            b = fl_block(e[3][1], None, where, False) if e[3] is not None else ["pure ()"]
+            out += ["let isDirty ← FlushM.isDirty", "(if %sisDirty then do" % ("!" if neg else "")] + ind(a, 4) + ["  else do"] + ind(b, 4)
+            out[-1] += ")"
+        else:
+            fail("%s: statement outside the subset of the flush functions (`self.<val|key|htx>_file.<flush|sync_all|sync_data>()?;`, "
+                 "`self.dirty = <bool>;`, `if [!]self.is_dirty() { … } [else { … }]`)" % where)
+    if top:
+        if tail != ("call", ["Ok"], [("tuple", [])]):
+            fail("%s: the body does not end with `Ok(())`" % where)
+    elif tail is not None:
+        fail("%s: a block with a value" % where)
+    return out + ["pure ()"]
+
+
+def emit_flushops(repo, feats, out, done, methods):
+    notes = []
+    # ---- what the statements mean
+    fl_pin_method(repo, feats, methods, IO_DBX, _ENG_I, "is_dirty", "fn is_dirty(&self) -> bool { self.dirty }")
+    for rel, header, how in ((IO_KEY, "impl<KT: DbMapKeyType> KeyFile<KT>", "let mut locked = self.0.borrow_mut(); locked.0.%s()"),
+                             (IO_VAL, "impl ValueFile", "let mut locked = self.0.borrow_mut(); locked.0.%s()"),
+                             (IO_HTX, "impl HtxFile", "let mut locked = RefCell::borrow_mut(&self.0); locked.file.%s()")):
+        for m in FL_ACTS:
+            fl_pin_method(repo, feats, methods, rel, header, m, "fn %s(&self) -> Result<()> { %s }" % (m, how % m))
+    # the `VarFile` under the handles: the call of the buffer (`#[cfg(abyssiniandb_verif)]`: an I/O trace of the
+    # verification harness, not part of a default build)
+    for header, m in (("impl VarFile", "sync_all"), ("impl VarFile", "sync_data"), ("impl Write for VarFile", "flush")):
+        fl_pin_method(repo, feats, methods, IO_VF, header, m,
+                      'fn %s(&mut self) -> Result<()> { #[cfg(abyssiniandb_verif)] super::verif::io_trace(self.buf_file.name(), "%s"); '
+                      'self.buf_file.%s() }' % (m, m, m))
+    # ---- the three functions
+    texts = []
+    for rust, lean in FL_FUNCS:
+        where = "%s::<%s>::%s" % (IO_DBX, _ENG_B, rust)
+        cands = methods[(IO_DBX, _ENG_B)].get(rust, []) if (IO_DBX, _ENG_B) in methods else \
+            io_find_methods(repo, feats, IO_DBX, _ENG_B).get(rust, [])
+        if len(cands) != 1:
+            fail("%s: %d definitions with a true `#[cfg]` (exactly one expected)" % (where, len(cands)))
+        toks, blockdesc = cands[0]
+        recv, params, ret, ib = io_parse_sig(toks, where)
+        if recv != "&mut self" or params or ret != "Result<()>":
+            fail("%s: signature is not `(&mut self) -> Result<()>`" % where)
+        pp = P(toks[ib:], feats, where)
+        pp.keep_try = True
+        body = pp.block()
+        if pp.i != len(toks) - ib or pp.dropped or pp.kept:
+            fail("%s: tokens after the body / `#[cfg]` statements" % where)
+        lines = fl_block(body[1], body[2], where, True)
+        texts.append("/-- %s %s, `fn %s` -/\ndef %s {β : Type} (p : FilePrims β) : FlushM β Unit := do\n%s\n"
+                     % (IO_DBX, blockdesc, rust, lean, "\n".join(ind(lines))))
+    # ---- `dirty: true` in the constructor
+    where = "%s::<%s>::open_with_params" % (IO_DBX, _ENG_I)
+    cands = methods[(IO_DBX, _ENG_I)].get("open_with_params", [])
+    if len(cands) != 1:
+        fail("%s: %d definitions (exactly one expected)" % (where, len(cands)))
+    tv = [v for _k, v in cands[0][0]]
+    starts = [i for i in range(len(tv) - 3) if tv[i:i + 4] == ["Ok", "(", "Self", "{"]]
+    if len(starts) != 1 or tv.count("Self") != 1:
+        fail("%s: not exactly one `Ok(Self { … })`" % where)
+    i, depth, lits = starts[0] + 4, 1, []
+    while depth:
+        v = tv[i]
+        depth += (v in ("{", "(", "[")) - (v in ("}", ")", "]"))
+        if depth == 1 and v == "dirty" and tv[i + 1] == ":" and tv[i - 1] in ("{", ","):
+            lits.append(tv[i + 2] if tv[i + 3] in (",", "}") else "?")
+        i += 1
+    if len(lits) != 1 or lits[0] not in ("true", "false") or "dirty" in tv[:starts[0]]:
+        fail("%s: the struct literal does not set `dirty: <bool literal>` exactly once (or `dirty` occurs before it)" % where)
+    texts.append("/-- %s `%s`, `fn open_with_params`: the struct literal `Ok(Self { …, dirty: %s, … })` (the headers of new files "
+                 "are only in the buffers yet) -/\ndef dirtyAtOpen : Bool := %s\n" % (IO_DBX, _ENG_I, lits[0], lits[0]))
+    # ---- `self.dirty = true;` in `put_kt` / `del_kt` (left out of Engine.lean): where it stands
+    def dirty_sets(body):
+        return [n for n in io_walk(body) if n[0] == "assign" and n[2] == FL_DIRTY]
+
+    put, dele = done[(ENG, "put_kt")], done[(ENG, "del_kt")]
+    for f in (put, dele):
+        if dirty_sets(f.body) != [FL_SET_TRUE]:
+            fail("%s: not exactly one assignment to `self.dirty`, `self.dirty = true;`" % f.where)
+    sts = put.body[1]
+    if FL_SET_TRUE not in sts:
+        fail("%s: `self.dirty = true;` is not a statement of the function body itself (it is inside a branch)" % put.where)
+    k = sts.index(FL_SET_TRUE)
+    if sts[:k] != [FL_FIND] or k + 1 >= len(sts) or not (sts[k + 1][0] == "expr" and sts[k + 1][1][0] == "iflet"):
+        fail("%s: `self.dirty = true;` does not stand between `let opt = self.find_in_hash_buckets_kt(hash, key_kt)?;` and the "
+             "`if let Some(..) = opt`" % put.where)
+    texts.append("/-- %s: `self.dirty = true;` stands in the function body itself, after `let opt = self.find_in_hash_buckets_kt(hash, "
+                 "key_kt)?;` and before the `if let Some(..) = opt { … } else { … }`: every `put` whose lookup succeeds raises the flag "
+                 "before it writes, whether it replaces or inserts -/\ndef putSetsDirty : Bool := true\n" % put.src)
+    sts, tl = dele.body[1], dele.body[2]
+    il = tl if (tl is not None and tl[0] == "iflet") else (sts[-1][1] if (sts and sts[-1][0] == "expr" and sts[-1][1][0] == "iflet") else None)
+    if not (il is not None and [x for x in sts if x[0] != "expr" or x[1] is not il] == [FL_FIND] and il[2] == ("path", ["opt"])
+            and il[1][0] == "pctor" and il[1][1] == "Some" and il[3][1] and il[3][1][0] == FL_SET_TRUE):
+        fail("%s: `self.dirty = true;` is not the first statement of the `Some` branch of `if let Some(..) = opt` after "
+             "`let opt = self.find_in_hash_buckets_kt(hash, key_kt)?;`" % dele.where)
+    texts.append("/-- %s: `self.dirty = true;` is the first statement of the `Some` branch of `if let Some(..) = opt` (`opt` = "
+                 "`self.find_in_hash_buckets_kt(hash, key_kt)?`): a `delete` of an absent key does not raise the flag (it writes "
+                 "nothing) -/\ndef delSetsDirtyOnlyWhenFound : Bool := true\n" % dele.src)
+    with open(os.path.join(out, "FlushOps.lean"), "w") as fh:
+        fh.write("import Abyss.FlushM\n")
+        fh.write(FL_HEADER)
+        fh.write("namespace Abyss.Gen\nopen Abyss (FlushM FilePrims)\n\n")
+        fh.write("\n".join(texts))
+        fh.write("\nend Abyss.Gen\n")
+    return len(texts)
+
+
+FL_HEADER = """/-! GENERATED by tools/rs2lean.py from /repo — do not edit.
+Flush / sync of a map and its dirty flag (src/filedb/inner/dbxxx.rs `impl DbXxxBase for FileDbXxxInner<KT>`:
+`flush`, `sync_all`, `sync_data`) as functions in `Abyss.FlushM β` (Abyss/FlushM.lean): state = the three buffered files
+(of any type `β`), the `dirty` flag and a fault counter; failure = `Err` (the state reached so far is kept).
+Statement by statement:
+
+* `self.val_file.<m>()?;` / `self.key_file.<m>()?;` / `self.htx_file.<m>()?;` (`<m>` = `flush`, `sync_all`, `sync_data`)
+  is `FlushM.onVal p.<m>` / `FlushM.onKey p.<m>` / `FlushM.onHtx p.<m>`: the parameter `p : FilePrims β` holds the three
+  actions of one buffered file.  Checked on every run: `KeyFile::<m>` / `ValueFile::<m>` are
+  `{ let mut locked = self.0.borrow_mut(); locked.0.<m>() }`, `HtxFile::<m>` is
+  `{ let mut locked = RefCell::borrow_mut(&self.0); locked.file.<m>() }`, and `VarFile::<m>` is `self.buf_file.<m>()`
+  (after an I/O trace statement under `#[cfg(abyssiniandb_verif)]`).
+* `self.dirty = b;` is `FlushM.setDirty b`; `if self.is_dirty() { … }` reads the flag (`FlushM.isDirty`;
+  `is_dirty` is `{ self.dirty }`, checked); `Ok(())` is `pure ()`.
+* `dirtyAtOpen`: the literal of `dirty:` in the `Ok(Self { … })` of `FileDbXxxInner::open_with_params`.
+* `putSetsDirty`, `delSetsDirtyOnlyWhenFound`: where the statement `self.dirty = true;` (left out of Engine.lean) stands
+  in `put_kt` / `del_kt`; the translation fails when it stands elsewhere.
+-/
+"""
+
 IO_PRELUDE = """/-- `!x` on a `u8` -/
 def u8Not (x : Nat) : Nat := 0xFF - x % 256
 
@@ -4037,11 +4896,20 @@ def u8Not (x : Nat) : Nat := 0xFF - x % 256
 build does (a debug build panics when `n ≥ 8`; the translated code only shifts by `idx % 8`) -/
 def u8Shl (x n : Nat) : Nat := Nat.shiftLeft x (n % 8) % 256
 
+/-- the trait `PieceA<T>` (src/filedb/inner/piece.rs, definition pinned) of a record file: what the walk over all
+pieces (`PieceOffsetIter<T>`) needs from the file; `Box<dyn PieceA<T>>` is a value of this structure
+(`keyPieceA`, `valPieceA` at the end of this file) -/
+structure PieceA where
+  pieceOffsetStart : M Nat
+  pieceOffsetEnd : M Nat
+  pieceSize : Nat → M Nat
+
 """
 
 ENG_HEADER = """/-! GENERATED by tools/rs2lean.py from /repo — do not edit.
 The engine: the methods of `FileDbXxxInner<KT>` (src/filedb/inner/dbxxx.rs: `load_value`, `store_value_on_insert`,
-`relink_moved_key_piece`, `find_in_hash_buckets_kt`, `len`, `get_kt`, `put_kt`, `del_kt`, `includes_key_kt`) as
+`relink_moved_key_piece`, `find_in_hash_buckets_kt`, `len`, `get_kt`, `put_kt`, `del_kt`, `includes_key_kt`), the
+iterator `DbXxxIterMut<KT>` and the statistics calls of `CheckFileDbMap` as
 functions in `Abyss.DbM` (Abyss/DbM.lean): state = the three flat files (`htx`, `key`, `val`), failure = `Err` /
 panic / a loop out of fuel.  The rules of FileOps.lean apply; in addition:
 
@@ -4066,7 +4934,29 @@ panic / a loop out of fuel.  The rules of FileOps.lean apply; in addition:
 * `loop { … }` (last statement, left only by `return`) is an auxiliary function like a `while` loop whose value
   is the value of the function; loop fuel is `(← DbM.keyLen) + 1`: a chain of the key file has fewer pieces
   than the file has bytes.
-* `self.dirty = true;` and `_cold();` are left out (named in the doc comments).
+* `self.dirty = true;` and `_cold();` are left out (named in the doc comments; where `self.dirty = true;` stands is
+  pinned in FlushOps.lean: `putSetsDirty`, `delSetsDirtyOnlyWhenFound`).
+* the iterator state machine `DbXxxIterMut<KT>` (`new` -> `iterNew`, `next_piece_offset` -> `iterNextPieceOffset`,
+  `Iterator::next` -> `iterNext`; `load_key_data`): the struct (definition pinned) is the explicit tuple
+  `st = (remaining_item_count, buckets_size, buckets_idx, key_offset)`: parameter and second component of the value of a
+  `&mut self` method (`self.f` is a variable `selfF`, `self.f = e;` re-binds it), value of `new` (`Ok(Self { … })`, every
+  field once); its `db_map: Rc<RefCell<FileDbXxxInner<KT>>>` is the state of `DbM`.  The `RefCell` plumbing is pinned by
+  shape and dropped: `let h = RefCell::borrow(&db_map)` / `RefCell::borrow[_mut](&self.db_map)` (h is the map: `h.htx_file.m()`,
+  `h.load_value(..)` are what `self.…` is in the methods of the map), `let mut k = RefCell::borrow_mut(&h.key_file.0)`
+  (`k.m(..)` = `liftKey (m …)`), `let mut x = RefCell::borrow_mut(&h.htx_file.0)` (`x.file.m(..)` = `liftHtx (htx… …)`).
+  These functions do not return a `Result`: their value is the Lean value, `call.unwrap()` of a `Result` is `call?`
+  (the panic on `Err` = `DbM.fail`).  `if let Some(p) = self.next_piece_offset()` runs the call first (the state
+  tuple is re-bound).  The loop over the buckets has the fuel `(← DbM.htxLen) + 1`.
+* statistics (`impl CheckFileDbMap for FileDbXxxInner`): `for off in self.key_piece_offset_iter() { … }` /
+  `self.value_piece_offset_iter()`: the layers `FileDbXxxInner::key_piece_offset_iter` -> `KeyFile::piece_offset_iter` ->
+  `KeyPieceOffsetIter::{new, next_piece_offset}`, `Iterator::next` (and the same for the value file) are compared with
+  the configured text on every run; the loop is `pieceOffsetIterNew keyPieceA` once and
+  `pieceOffsetIterNextPieceOffset keyPieceA` per round (FileOps.lean, each `.unwrap()`ed), an auxiliary function
+  recursive on `fuel` = `(← DbM.keyLen) + 1` / `(← DbM.valLen) + 1` (a file has fewer pieces than bytes) over
+  (the `PieceOffsetIter`, the variables the body assigns).  `RecordSizeStats::default()` / `LengthStats::default()` are
+  `[]` (`#[derive(Default)]` of the tuple struct around the `Vec`, pinned), `v.touch_size(x);` / `v.touch_length(x);`
+  re-bind `v := touchSize v x` / `touchLength v x` (Funcs.lean).  `self.key_file.m()` with `m` not a plain wrapper is
+  the translated method `m` of the handle (`count_of_free_key_piece`).
 -/
 """
 
@@ -4118,10 +5008,57 @@ key file (src/filedb/inner/val.rs `ValuePiece`, `VarFileValueCache`; src/filedb/
   (below; literals are `u8`); `std::mem::size_of_val(&v)` is the size of the integer type of `v` (evident from
   `v = <primitive>()?`); `seek(SeekFrom::Current(-(n as i64)))` with `n: u32` is `FileM.seekBack n`.
 * an unsigned subtraction `a - b` that the source does not guard (`idx -= 8 * 8`, `idx - 8`) is preceded by
-  `if a < b then FileM.fail` (a debug build panics there, a release build wraps: outside the model).
+  `if a < b then FileM.fail` (a debug build panics there, a release build wraps: outside the model); a division by
+  something that is not a positive literal by `if b == 0 then FileM.fail` (Rust panics).
+* statistics: the trait `PieceA<T>` (piece.rs, definition pinned) is the structure `PieceA` below, its two
+  implementations (`impl PieceA<Key> for KeyFile<KT>`, `impl PieceA<Value> for ValueFile`: `let mut file =
+  self.0.borrow_mut();` pinned and dropped, `file.0` is the file) the values `keyPieceA` / `valPieceA` at the end of the
+  file; `DAT_HEADER_SZ`, `REC_SIZE_ARY` are the constants of Consts.lean.  The walk `PieceOffsetIter<T>` (`new`,
+  `next_piece_offset`): the struct (definition pinned) is the explicit tuple `st = (piece_offset_start, piece_offset_end,
+  piece_offset)` (parameter and second component of the value of the `&mut self` method, value of `new`), its
+  `file_a: Box<dyn PieceA<T>>` the parameter `fileA : PieceA` (`self.file_a.m(..)` = `fileA.m …`).
+* `for x in a { … }` over a constant array and `for i in 0..n { … }` (no `return` / `break` / `continue`): an auxiliary
+  function, structurally recursive on the list (`List.range n`), over the variables the body assigns; a local
+  `Vec::new()` of pairs with `v.push((a, b));` is a `List (Nat × Nat)` (`v ++ [(a, b)]`).
+  `count_of_free_key_piece` / `count_of_free_value_piece` are methods of the handles `KeyFile<KT>` / `ValueFile`
+  (`let mut locked = self.0.borrow_mut();` pinned and dropped, `locked.0` is the file).
 -/
 """
 
+
+TOUCH_PRELUDE = """/-- `slice::binary_search_by_key(&x, |&(a, _b)| a)` on a vector of pairs that is sorted by the first components, all
+distinct: `.ok i` is Rust's `Ok(i)` (`v[i].0 == x`), `.error i` is `Err(i)` (`i` = the number of elements with a smaller
+first component = the place where `x` can be inserted keeping the order).  Structural (a scan from the left): on such a
+vector this is the value of the binary search; other vectors are outside the model (`touch_size` / `touch_length`
+keep their vector sorted and without duplicates). -/
+def binarySearchByKey : List (Nat × Nat) → Nat → Except Nat Nat
+  | [], _ => .error 0
+  | (a, _) :: rest, x =>
+    if a = x then .ok 0
+    else if x < a then .error 0
+    else match binarySearchByKey rest x with
+      | .ok i => .ok (i + 1)
+      | .error i => .error (i + 1)
+
+/-- `Vec::insert(i, e)` (`i ≤ len`, as for the `Err(i)` of a binary search; Rust panics otherwise, here `e` is appended) -/
+def listInsertAt : List (Nat × Nat) → Nat → Nat × Nat → List (Nat × Nat)
+  | l, 0, e => e :: l
+  | [], _+1, e => [e]
+  | x :: rest, i+1, e => x :: listInsertAt rest i e
+
+/-- `v[i].1` (`i < len`, as for the `Ok(i)` of a binary search; Rust panics otherwise, here 0) -/
+def listGetSnd : List (Nat × Nat) → Nat → Nat
+  | [], _ => 0
+  | (_, b) :: _, 0 => b
+  | _ :: rest, i+1 => listGetSnd rest i
+
+/-- `v[i].1 = b` (`i < len`; Rust panics otherwise, here nothing changes) -/
+def listSetSnd : List (Nat × Nat) → Nat → Nat → List (Nat × Nat)
+  | [], _, _ => []
+  | (a, _) :: rest, 0, b => (a, b) :: rest
+  | x :: rest, i+1, b => x :: listSetSnd rest i b
+
+"""
 
 STAGE = "funcs"
 
@@ -4252,6 +5189,15 @@ def main():
     if not part:
         fail(KT + "kt_dbvu64.rs::<impl From<&DbVu64> for u64>::from: expected a panic path (`unwrap`)")
 
+    # ---- statistics vectors (src/filedb/mod.rs): `touch_size`, `touch_length` as pure functions on the vector
+    for header, rust, param, ptype, lean in (("impl<T: Copy + Ord> RecordSizeStats<T>", "touch_size", "piece_size", "PieceSize<T>", "touchSize"),
+                                             ("impl<T: Ord + Default + Copy> LengthStats<T>", "touch_length", "key_length", "Length<T>",
+                                              "touchLength")):
+        lp, term = translate_touch(repo, feats, header, rust, param, ptype)
+        F.append((lean, "(vec : List (Nat × Nat)) (%s : Nat) : List (Nat × Nat)" % lp, False, term,
+                  "src/filedb/mod.rs `%s`, `fn %s`" % (header, rust),
+                  ["`&mut self` is the tuple struct around the sorted vector: `self.0` is the parameter and the value `vec`"]))
+
     with open(os.path.join(out, "Funcs.lean"), "w") as fh:
         fh.write("import Abyss.Vu64\nimport Abyss.Gen.Consts\n")
         fh.write("/-! GENERATED by tools/rs2lean.py from /repo — do not edit. Pure functions. -/\n")
@@ -4271,6 +5217,7 @@ def main():
         fh.write("def toI64 (u : Nat) : Int := if u < 2^63 then (u : Int) else (u : Int) - 2^64\n\n")
         fh.write("/-- src/filedb/mod.rs `HashBucketsParam` -/\n")
         fh.write("inductive HashBucketsParam where\n  | bucketsSize (x : Nat)\n  | capacity (x : Nat)\n  | default\n  deriving Repr, DecidableEq\n\n")
+        fh.write(TOUCH_PRELUDE)
         for lean, sig, partial, term, src, notes in F:
             fh.write("/-- %s%s -/\n" % (src, ("; " + ", ".join(sorted(set(notes)))) if notes else ""))
             fh.write("def %s %s :=\n  %s\n\n" % (lean, sig, term))
@@ -4281,8 +5228,10 @@ def main():
     n_io, done, methods = emit_fileops(repo, feats, out, set(x[0] for x in F), dict((x[0], x[2]) for x in C))
     STAGE = "engine"
     n_eng = emit_engine(repo, feats, out, done, methods)
-    print("rs2lean: wrote %d constants, %d functions, %d file operations, %d engine functions (features: %s)"
-          % (len(C), len(F), n_io, n_eng, ",".join(sorted(feats))))
+    STAGE = "flush"
+    n_fl = emit_flushops(repo, feats, out, done, methods)
+    print("rs2lean: wrote %d constants, %d functions, %d file operations, %d engine functions, %d flush definitions (features: %s)"
+          % (len(C), len(F), n_io, n_eng, n_fl, ",".join(sorted(feats))))
 
 
 if __name__ == "__main__":
@@ -4296,7 +5245,8 @@ if __name__ == "__main__":
         # in the Engine stage also the FileOps.lean)
         if len(sys.argv) > 2 and os.path.isdir(sys.argv[2]):
             msg = ("rs2lean: UNSUPPORTED: %s" % e).replace("\\", "\\\\").replace('"', '\\"').replace("\n", " ")
-            for name in (["Funcs.lean"] if STAGE == "funcs" else []) + (["FileOps.lean"] if STAGE != "engine" else []) + ["Engine.lean"]:
+            for name in (["Funcs.lean"] if STAGE == "funcs" else []) + (["FileOps.lean"] if STAGE in ("funcs", "fileops") else []) + \
+                    (["Engine.lean"] if STAGE != "flush" else []) + ["FlushOps.lean"]:
                 with open(os.path.join(sys.argv[2], name), "w") as fh:
                     fh.write("/-! GENERATED by tools/rs2lean.py — the translation FAILED, nothing was emitted. -/\n")
                     fh.write('#eval (throw (IO.userError "%s") : IO Unit)\n' % msg)
